@@ -9,13 +9,27 @@ keep-alive is never jailed for inactivity, keep-alives from relayers older than 
 version are refused, that minimum never decreases, and repeated jailings lengthen the sentence along
 the fixed schedule."
 
-All theorems are about arbitrary states / arbitrary operation lists (`run`), arbitrary address byte
-strings and arbitrary stake distributions; nothing is bounded. See C12.md for what is modelled.
+Two layers of theorems:
+* step level — about one operation in an ARBITRARY state (hence inside every history);
+* history level — about `run St.init ops` for every WELL-FORMED BLOCK HISTORY `ops` (`wf`: heights
+  carried by the operations are the running block height, one `endBlock` per height; everything
+  else — which transactions, in which order, stake changes, jail / unjail events, block times — is
+  free). All hypotheses of the history theorems are functions of the history (`acceptedKA`,
+  `endBlocks`, `jailTimes`, characterised by `mem_acceptedKA_iff`, `mem_endBlocks_iff`,
+  `mem_jailTimes_iff`), not of the stores; the stores are tied to the history by the provenance
+  theorems `alive_provenance`, `prev_provenance`, `grace_provenance`, `jailLog_eq_history`.
+
+The liveness clause AS WRITTEN is false (`liveness_as_written_false`, known finding
+`C12-last-validator-global`): the true statement has a fourth disjunct (`inactive_jailed_history`),
+which is reachable from `St.init` (`fourth_disjunct_reachable`).
+Nothing is bounded: arbitrary address byte strings, stake distributions, operation lists.
+See C12.md for what is modelled.
 -/
 import PalomaModel.Model.KeepAlive
 
 namespace Paloma.KeepAlive
 open List
+
 
 /-! ## helper lemmas -/
 section Lemmas
@@ -425,7 +439,11 @@ theorem foldl_isJailed_skip (h t : Int) (l : List Val) (s : St) (a : Addr)
       rw [isAlive_congr _ _ hs.1, inGrace_congr _ _ hs.2.1]; exact hskip
     rw [ih _ hskip', sweepStep_isJailed_skip h t s w a hskip]
 
-/-- "jailed, or shielded by the network-protection rules in this state" -/
+/-- "jailed, or `Jail` refuses in this state". NOTE: `protectedIn` is the test as `Jail` CODES it: the
+25 % rule for the target OR exactly one active validator — WHOEVER the target is. This is wider than
+the exception of the property text ("is the last active validator"); the history-level theorems
+(`inactive_jailed_history`) split it into its parts and `liveness_as_written_false` /
+`fourth_disjunct_reachable` show that the extra part is real. -/
 def jailedOrProtected (s : St) (a : Addr) : Prop :=
   isJailed s a = true ∨ ∃ v, findVal s.vals a = some v ∧ protectedIn s.vals (consPower v) = true
 
@@ -712,15 +730,14 @@ theorem endBlock_entry (s : St) (h t : Int) (a : Addr) (v : Val) (hf : findVal s
   · exact inv _ (updateGrace s h) ⟨fun hj => hj, Or.inr hf⟩
   · exact ⟨fun hj => hj, Or.inr hf⟩
 
-end Lemmas
 
-/-! ## Property theorems (C12) -/
+/-! ### codec round trip and the grace rule (restated as property theorems below) -/
 
 /-- **codec_roundtrip.** Decoding the stored snapshot gives back exactly the list of addresses
 that was encoded, for ALL byte strings (0x2c inside, all-0x2c, empty, prefixes of one another).
 The only artefact: the empty list decodes to the set containing the empty address, as in Go
 (`strings.Split("", ",")` is `[""]`); no validator has the empty address. -/
-theorem codec_roundtrip (l : List Addr) :
+theorem codec_roundtrip_lem (l : List Addr) :
     decodeSet (encodeSet l) = if l = [] then [[]] else l := by
   unfold decodeSet encodeSet
   rw [cutPrefix_hexPrefix_append]
@@ -736,12 +753,1130 @@ theorem codec_roundtrip (l : List Addr) :
 
 /-- **codec_roundtrip (membership form).** An address is found in the stored snapshot iff it was
 stored — the lemma the raw `bytes.Join(…, ",")` format of the pinned tree fails. -/
-theorem codec_mem (l : List Addr) (a : Addr) :
+theorem codec_mem_lem (l : List Addr) (a : Addr) :
     a ∈ decodeSet (encodeSet l) ↔ a ∈ l ∨ (l = [] ∧ a = []) := by
-  rw [codec_roundtrip]
+  rw [codec_roundtrip_lem]
   by_cases hl : l = []
   · subst hl; simp
   · simp [hl]
+
+/-- **grace_only_when_new.** A validator listed in the snapshot of the previous block (i.e. unjailed
+at the previous end block) does not get a new grace period, whatever bytes its address contains. -/
+theorem grace_only_when_new_lem (s : St) (h t : Int) (l : List Addr) (a : Addr)
+    (hprev : s.prev = some (encodeSet l)) (ha : a ∈ l) :
+    (endBlock s h t).grace.get a = s.grace.get a := by
+  rw [endBlock_grace, updateGrace_grace, hprev]
+  have hl : l ≠ [] := fun e => by subst e; cases ha
+  have : (decodeSet ((some (encodeSet l)).getD [])).contains a = true := by
+    simp only [Option.getD_some]
+    rw [codec_roundtrip_lem]; simp [hl, ha]
+  rw [this]
+  simp
+
+/-! ### well-formed block histories -/
+
+/-- the operation is the end of a block -/
+def isEB : Op → Bool
+  | .endBlock _ _ => true
+  | _ => false
+
+/-- operations that read the block height carry the height of the block they are in -/
+def opHeightOK (cur : Int) : Op → Bool
+  | .keepAlive h _ _ => h == cur
+  | .proposal h _ _ => h == cur
+  | .beginBlock h => h == cur
+  | .endBlock h _ => h == cur
+  | _ => true
+
+def nextH (cur : Int) (op : Op) : Int := if isEB op then cur + 1 else cur
+
+/-- `wf cur ops`: `ops` is a block history starting inside the block of height `cur`: every
+height-reading operation carries the current height and every `endBlock` moves on to the next
+height. Everything else (which transactions, how many, in which order, block times) is free. -/
+def wf (cur : Int) : List Op → Bool
+  | [] => true
+  | op :: rest => opHeightOK cur op && wf (nextH cur op) rest
+
+/-- the height of the block that is open after `ops` -/
+def heightAfter (cur : Int) : List Op → Int
+  | [] => cur
+  | op :: rest => heightAfter (nextH cur op) rest
+
+theorem heightAfter_append (cur : Int) (a b : List Op) :
+    heightAfter cur (a ++ b) = heightAfter (heightAfter cur a) b := by
+  induction a generalizing cur with
+  | nil => rfl
+  | cons op rest ih => simp only [List.cons_append, heightAfter, ih]
+
+theorem wf_append (cur : Int) (a b : List Op) :
+    wf cur (a ++ b) = (wf cur a && wf (heightAfter cur a) b) := by
+  induction a generalizing cur with
+  | nil => simp [wf, heightAfter]
+  | cons op rest ih => simp only [List.cons_append, wf, heightAfter, ih, Bool.and_assoc]
+
+theorem heightAfter_ge (cur : Int) (a : List Op) : cur ≤ heightAfter cur a := by
+  induction a generalizing cur with
+  | nil => exact Int.le_refl _
+  | cons op rest ih =>
+    have := ih (nextH cur op)
+    have h2 : cur ≤ nextH cur op := by unfold nextH; split <;> omega
+    simp only [heightAfter]
+    omega
+
+theorem wf_snoc (cur : Int) (ops : List Op) (op : Op) :
+    wf cur (ops ++ [op]) = (wf cur ops && opHeightOK (heightAfter cur ops) op) := by
+  rw [wf_append]; simp [wf]
+
+theorem heightAfter_snoc (cur : Int) (ops : List Op) (op : Op) :
+    heightAfter cur (ops ++ [op]) = nextH (heightAfter cur ops) op := by
+  rw [heightAfter_append]; rfl
+
+theorem run_snoc (s : St) (ops : List Op) (op : Op) : run s (ops ++ [op]) = apply (run s ops) op := by
+  unfold run; rw [List.foldl_append]; rfl
+
+theorem run_append (s : St) (a b : List Op) : run s (a ++ b) = run (run s a) b := by
+  unfold run; rw [List.foldl_append]
+
+/-! ### facts collected along a history -/
+
+/-- `collect f s ops`: run `ops` from `s` and concatenate what `f` reports for every operation,
+given the state in which that operation is executed (oldest first) -/
+def collect {α : Type} (f : St → Op → List α) (s : St) : List Op → List α
+  | [] => []
+  | op :: rest => f s op ++ collect f (apply s op) rest
+
+theorem collect_append {α : Type} (f : St → Op → List α) (s : St) (a b : List Op) :
+    collect f s (a ++ b) = collect f s a ++ collect f (run s a) b := by
+  induction a generalizing s with
+  | nil => rfl
+  | cons op rest ih =>
+    simp only [List.cons_append, collect, ih, List.append_assoc]
+    rfl
+
+theorem collect_snoc {α : Type} (f : St → Op → List α) (s : St) (ops : List Op) (op : Op) :
+    collect f s (ops ++ [op]) = collect f s ops ++ f (run s ops) op := by
+  rw [collect_append]; simp [collect]
+
+/-- what `collect` means without any auxiliary function: `x` was reported for an operation of the
+history, in the state reached by the operations before it -/
+theorem mem_collect_iff {α : Type} (f : St → Op → List α) (s : St) (ops : List Op) (x : α) :
+    x ∈ collect f s ops ↔ ∃ pre op post, ops = pre ++ op :: post ∧ x ∈ f (run s pre) op := by
+  induction ops generalizing s with
+  | nil => simp [collect]
+  | cons o rest ih =>
+    simp only [collect, List.mem_append, ih]
+    constructor
+    · rintro (h | ⟨pre, op, post, e, hx⟩)
+      · exact ⟨[], o, rest, rfl, h⟩
+      · exact ⟨o :: pre, op, post, by rw [e]; rfl, hx⟩
+    · rintro ⟨pre, op, post, e, hx⟩
+      cases pre with
+      | nil =>
+        simp only [List.nil_append, List.cons.injEq] at e
+        obtain ⟨rfl, rfl⟩ := e
+        exact Or.inl hx
+      | cons p pre' =>
+        simp only [List.cons_append, List.cons.injEq] at e
+        obtain ⟨rfl, rfl⟩ := e
+        exact Or.inr ⟨pre', op, post, rfl, hx⟩
+
+/-- heights of the ACCEPTED keep-alives for `a` -/
+def kaOf (a : Addr) (s : St) : Op → List Int
+  | .keepAlive h b ver => if b = a ∧ (keepAlive s h b ver).2 = .ok then [h] else []
+  | _ => []
+
+/-- the end blocks: height, block time and the state in which the end block ran -/
+def ebOf (s : St) : Op → List (Int × Int × St)
+  | .endBlock h t => [(h, t, s)]
+  | _ => []
+
+/-- block times at which the valset `Jail` went through for `a`: called directly (`Op.jail`, other
+modules) or from the sweep of an end block (the jailed flag of `a` turns from false to true) -/
+def jailOf (a : Addr) (s : St) : Op → List Int
+  | .jail t b => if b = a ∧ (jail s t b).2 = .ok then [t] else []
+  | .endBlock h t => if isJailed s a = false ∧ isJailed (endBlock s h t) a = true then [t] else []
+  | _ => []
+
+/-- heights of the accepted keep-alives for `a` in the history `ops` (from the initial state) -/
+def acceptedKA (a : Addr) (ops : List Op) : List Int := collect (kaOf a) St.init ops
+/-- the end blocks of the history `ops` (from the initial state) -/
+def endBlocks (ops : List Op) : List (Int × Int × St) := collect ebOf St.init ops
+/-- the times of the successful valset jailings of `a` in `ops` run from `s` -/
+def jailTimes (a : Addr) (s : St) (ops : List Op) : List Int := collect (jailOf a) s ops
+
+
+/-! ### frame lemmas -/
+
+theorem apply_alive_of_not_ka (s : St) (op : Op) (hne : ∀ h b v, op ≠ .keepAlive h b v) :
+    (apply s op).alive = s.alive := by
+  cases op with
+  | addVal v => simp only [apply, addVal]; split <;> rfl
+  | setStatus a st => simp only [apply, setStatus]; split <;> rfl
+  | setPower a p => simp only [apply, setPower]; split <;> rfl
+  | extJail a => simp only [apply, extJail]; split <;> rfl
+  | extUnjail a => simp only [apply, extUnjail]; split <;> rfl
+  | unjail t a => exact (unjail_sameStores s t a).1
+  | jail t a => exact (jail_sameStores s t a).1
+  | keepAlive h a ver => exact absurd rfl (hne h a ver)
+  | setMinVersion v => simp only [apply, setMinVersion]; split <;> rfl
+  | scheduleMinVersion v n => simp only [apply, scheduleMinVersion]; split <;> rfl
+  | proposal h v n =>
+    simp only [apply, proposal, setMinVersion, scheduleMinVersion]
+    split <;> split <;> rfl
+  | beginBlock h => exact (beginBlock_stores s h).2.1
+  | endBlock h t => exact endBlock_alive s h t
+
+theorem kaOf_of_not_ka (a : Addr) (s : St) (op : Op) (hne : ∀ h b v, op ≠ .keepAlive h b v) :
+    kaOf a s op = [] := by
+  cases op <;> first | rfl | exact absurd rfl (hne _ _ _)
+
+theorem apply_of_not_eb (s : St) (op : Op) (hne : isEB op = false) :
+    (apply s op).grace = s.grace ∧ (apply s op).prev = s.prev := by
+  cases op with
+  | addVal v => simp only [apply, addVal]; split <;> exact ⟨rfl, rfl⟩
+  | setStatus a st => simp only [apply, setStatus]; split <;> exact ⟨rfl, rfl⟩
+  | setPower a p => simp only [apply, setPower]; split <;> exact ⟨rfl, rfl⟩
+  | extJail a => simp only [apply, extJail]; split <;> exact ⟨rfl, rfl⟩
+  | extUnjail a => simp only [apply, extUnjail]; split <;> exact ⟨rfl, rfl⟩
+  | unjail t a => exact ⟨(unjail_sameStores s t a).2.1, (unjail_sameStores s t a).2.2.1⟩
+  | jail t a => exact ⟨(jail_sameStores s t a).2.1, (jail_sameStores s t a).2.2.1⟩
+  | keepAlive h a ver =>
+    simp only [apply, keepAlive]
+    split
+    · exact ⟨rfl, rfl⟩
+    · split <;> exact ⟨rfl, rfl⟩
+  | setMinVersion v => simp only [apply, setMinVersion]; split <;> exact ⟨rfl, rfl⟩
+  | scheduleMinVersion v n => simp only [apply, scheduleMinVersion]; split <;> exact ⟨rfl, rfl⟩
+  | proposal h v n =>
+    simp only [apply, proposal, setMinVersion, scheduleMinVersion]
+    split <;> split <;> exact ⟨rfl, rfl⟩
+  | beginBlock h => exact ⟨(beginBlock_stores s h).2.2.1, (beginBlock_stores s h).2.2.2⟩
+  | endBlock x y => simp [isEB] at hne
+
+theorem ebOf_of_not_eb (s : St) (op : Op) (hne : isEB op = false) : ebOf s op = [] := by
+  cases op <;> first | rfl | simp [isEB] at hne
+
+theorem nextH_of_not_eb (cur : Int) (op : Op) (hne : isEB op = false) : nextH cur op = cur := by
+  simp [nextH, hne]
+
+theorem nextH_ge (cur : Int) (op : Op) : cur ≤ nextH cur op := by
+  unfold nextH; split <;> omega
+
+/-- induction over a history from its end -/
+theorem snoc_induction {P : List Op → Prop} (h0 : P [])
+    (hs : ∀ ops op, P ops → P (ops ++ [op])) : ∀ ops, P ops := by
+  have : ∀ r : List Op, P r.reverse := by
+    intro r
+    induction r with
+    | nil => exact h0
+    | cons op r ih => rw [List.reverse_cons]; exact hs _ _ ih
+  intro ops
+  have := this ops.reverse
+  rwa [List.reverse_reverse] at this
+
+/-! ### provenance of the keep-alive store -/
+
+/-- the keep-alive record of `a` after a well-formed history, in terms of the history alone -/
+structure AliveInv (h0 : Int) (a : Addr) (ops : List Op) : Prop where
+  ka_le : ∀ hk ∈ acceptedKA a ops, hk ≤ heightAfter h0 ops
+  prov : ∀ u, (run St.init ops).alive.get a = some u → ∃ hk ∈ acceptedKA a ops, u = hk + keepAliveTTL
+  latest : ∀ hk ∈ acceptedKA a ops, ∃ u, (run St.init ops).alive.get a = some u ∧ hk + keepAliveTTL ≤ u
+
+theorem aliveInv (h0 : Int) (a : Addr) : ∀ ops, wf h0 ops = true → AliveInv h0 a ops := by
+  apply snoc_induction
+  · intro _
+    exact ⟨(by intro hk h; cases h), (by intro u h; cases h), (by intro hk h; cases h)⟩
+  · intro ops op ih hw
+    rw [wf_snoc, Bool.and_eq_true] at hw
+    obtain ⟨hw1, hok⟩ := hw
+    obtain ⟨i1, i2, i3⟩ := ih hw1
+    have hcur := nextH_ge (heightAfter h0 ops) op
+    by_cases hka : ∃ h b v, op = .keepAlive h b v
+    · obtain ⟨h, b, v, rfl⟩ := hka
+      have hh : h = heightAfter h0 ops := by simpa [opHeightOK] using hok
+      by_cases hacc : b = a ∧ (keepAlive (run St.init ops) h b v).2 = .ok
+      · obtain ⟨rfl, hacc⟩ := hacc
+        have hal : (run St.init (ops ++ [.keepAlive h b v])).alive.get b = some (h + keepAliveTTL) := by
+          rw [run_snoc]
+          simp only [apply]
+          unfold keepAlive at hacc ⊢
+          split
+          · rename_i h1; simp [h1] at hacc
+          · split
+            · rename_i h1 h2; simp [h1, h2] at hacc
+            · simp [Map.get_set]
+        have hk' : acceptedKA b (ops ++ [.keepAlive h b v]) = acceptedKA b ops ++ [h] := by
+          unfold acceptedKA; rw [collect_snoc]; simp [kaOf, hacc]
+        refine ⟨?_, ?_, ?_⟩
+        · intro hk hm
+          rw [hk'] at hm
+          rw [heightAfter_snoc]
+          rcases List.mem_append.1 hm with hm | hm
+          · have := i1 hk hm; omega
+          · simp at hm; omega
+        · intro u hu
+          rw [hal] at hu
+          exact ⟨h, by rw [hk']; simp, by cases hu; rfl⟩
+        · intro hk hm
+          rw [hk'] at hm
+          refine ⟨_, hal, ?_⟩
+          rcases List.mem_append.1 hm with hm | hm
+          · have := i1 hk hm; omega
+          · simp at hm; omega
+      · have hal : (run St.init (ops ++ [.keepAlive h b v])).alive.get a = (run St.init ops).alive.get a := by
+          rw [run_snoc]
+          simp only [apply]
+          unfold keepAlive
+          split
+          · rfl
+          · split
+            · rfl
+            · rename_i h1 h2
+              have hba : ¬ b = a := by
+                intro e
+                apply hacc
+                refine ⟨e, ?_⟩
+                unfold keepAlive
+                simp [h1, h2]
+              have : a ≠ b := fun e => hba e.symm
+              simp [Map.get_set, this]
+        have hk' : acceptedKA a (ops ++ [.keepAlive h b v]) = acceptedKA a ops := by
+          unfold acceptedKA; rw [collect_snoc]; simp [kaOf, hacc]
+        refine ⟨?_, ?_, ?_⟩
+        · intro hk hm
+          rw [hk'] at hm
+          rw [heightAfter_snoc]
+          have := i1 hk hm; omega
+        · intro u hu
+          rw [hal] at hu; rw [hk']; exact i2 u hu
+        · intro hk hm
+          rw [hk'] at hm; rw [hal]; exact i3 hk hm
+    · have hne : ∀ h b v, op ≠ .keepAlive h b v := fun h b v e => hka ⟨h, b, v, e⟩
+      have hal : (run St.init (ops ++ [op])).alive = (run St.init ops).alive := by
+        rw [run_snoc]; exact apply_alive_of_not_ka _ _ hne
+      have hk' : acceptedKA a (ops ++ [op]) = acceptedKA a ops := by
+        unfold acceptedKA; rw [collect_snoc, kaOf_of_not_ka a _ op hne]; simp
+      refine ⟨?_, ?_, ?_⟩
+      · intro hk hm
+        rw [hk'] at hm
+        rw [heightAfter_snoc]
+        have := i1 hk hm; omega
+      · intro u hu
+        rw [hal] at hu; rw [hk']; exact i2 u hu
+      · intro hk hm
+        rw [hk'] at hm; rw [hal]; exact i3 hk hm
+
+/-! ### provenance of the snapshot and grace stores -/
+
+structure GraceInv (h0 : Int) (a : Addr) (ops : List Op) : Prop where
+  eb_range : ∀ e ∈ endBlocks ops, h0 ≤ e.1 ∧ e.1 < heightAfter h0 ops
+  eb_exists : ∀ g, h0 ≤ g → g < heightAfter h0 ops → ∃ e ∈ endBlocks ops, e.1 = g
+  prev_none : heightAfter h0 ops = h0 → (run St.init ops).prev = none
+  prev_prov : ∀ e ∈ endBlocks ops, e.1 + 1 = heightAfter h0 ops →
+    (run St.init ops).prev = some (encodeSet (unjailedAddrs e.2.2))
+  grace_prov : ∀ g, (run St.init ops).grace.get a = some g →
+    (∃ e ∈ endBlocks ops, e.1 = g ∧ a ∈ unjailedAddrs e.2.2) ∧
+    (∀ e ∈ endBlocks ops, e.1 + 1 = g → a ∉ unjailedAddrs e.2.2)
+  grace_lb : a ≠ [] → ∀ e ∈ endBlocks ops, a ∈ unjailedAddrs e.2.2 →
+    (∀ e' ∈ endBlocks ops, e'.1 + 1 = e.1 → a ∉ unjailedAddrs e'.2.2) →
+    ∃ g, e.1 ≤ g ∧ (run St.init ops).grace.get a = some g
+
+theorem decodeSet_nil : decodeSet [] = [[]] := by decide
+
+theorem graceInv (h0 : Int) (a : Addr) : ∀ ops, wf h0 ops = true → GraceInv h0 a ops := by
+  apply snoc_induction
+  · intro _
+    refine ⟨(by intro e h; cases h), ?_, fun _ => rfl, (by intro e h; cases h), (by intro g h; cases h),
+      (by intro _ e h; cases h)⟩
+    intro g h1 h2
+    simp only [heightAfter] at h2
+    omega
+  · intro ops op ih hw
+    rw [wf_snoc, Bool.and_eq_true] at hw
+    obtain ⟨hw1, hok⟩ := hw
+    obtain ⟨i1, i2, i3, i4, i5, i6⟩ := ih hw1
+    cases heb : isEB op with
+    | false =>
+      obtain ⟨hg, hp⟩ := apply_of_not_eb (run St.init ops) op heb
+      have he : endBlocks (ops ++ [op]) = endBlocks ops := by
+        unfold endBlocks; rw [collect_snoc, ebOf_of_not_eb _ op heb]; simp
+      have hh : heightAfter h0 (ops ++ [op]) = heightAfter h0 ops := by
+        rw [heightAfter_snoc, nextH_of_not_eb _ op heb]
+      have hrun := run_snoc St.init ops op
+      refine ⟨?_, ?_, ?_, ?_, ?_, ?_⟩
+      · rw [he, hh]; exact i1
+      · rw [he, hh]; exact i2
+      · rw [hh, hrun, hp]; exact i3
+      · rw [he, hh, hrun, hp]; exact i4
+      · rw [he, hrun, hg]; exact i5
+      · rw [he, hrun, hg]; exact i6
+    | true =>
+      cases op with
+      | endBlock h t =>
+        have hh : h = heightAfter h0 ops := by simpa [opHeightOK] using hok
+        subst hh
+        have he : endBlocks (ops ++ [.endBlock (heightAfter h0 ops) t])
+            = endBlocks ops ++ [(heightAfter h0 ops, t, run St.init ops)] := by
+          unfold endBlocks; rw [collect_snoc]; rfl
+        have hcur : heightAfter h0 (ops ++ [.endBlock (heightAfter h0 ops) t]) = heightAfter h0 ops + 1 := by
+          rw [heightAfter_snoc]; simp [nextH, isEB]
+        have hge := heightAfter_ge h0 ops
+        have hrun : run St.init (ops ++ [.endBlock (heightAfter h0 ops) t])
+            = endBlock (run St.init ops) (heightAfter h0 ops) t := by rw [run_snoc]; rfl
+        refine ⟨?_, ?_, ?_, ?_, ?_, ?_⟩
+        · intro e hm
+          rw [he] at hm
+          rw [hcur]
+          rcases List.mem_append.1 hm with hm | hm
+          · have := i1 e hm; omega
+          · simp at hm; subst hm; simp; omega
+        · intro g hg1 hg2
+          rw [hcur] at hg2
+          rw [he]
+          by_cases hg : g < heightAfter h0 ops
+          · obtain ⟨e, hm, hx⟩ := i2 g hg1 hg
+            exact ⟨e, List.mem_append.2 (Or.inl hm), hx⟩
+          · exact ⟨_, List.mem_append.2 (Or.inr (List.mem_singleton.2 rfl)), by simp; omega⟩
+        · intro hx; rw [hcur] at hx; omega
+        · intro e hm hx
+          rw [he] at hm
+          rw [hcur] at hx
+          rw [hrun, endBlock_prev]
+          rcases List.mem_append.1 hm with hm | hm
+          · have := i1 e hm; omega
+          · simp at hm; subst hm; rfl
+        · intro g hg
+          rw [hrun, endBlock_grace, updateGrace_grace] at hg
+          rw [he]
+          split at hg
+          · rename_i hnew
+            cases hg
+            refine ⟨⟨_, List.mem_append.2 (Or.inr (List.mem_singleton.2 rfl)), rfl, hnew.1⟩, ?_⟩
+            intro e hm hx
+            rcases List.mem_append.1 hm with hm | hm
+            · have hp := i4 e hm hx
+              rw [hp] at hnew
+              intro hin
+              have : a ∈ decodeSet (encodeSet (unjailedAddrs e.2.2)) := (codec_mem_lem _ _).2 (Or.inl hin)
+              have hc := hnew.2
+              simp only [Option.getD_some] at hc
+              rw [List.contains_eq_mem] at hc
+              simp [this] at hc
+            · simp at hm; subst hm; simp at hx; omega
+          · obtain ⟨⟨e, hm, hx, hin⟩, hno⟩ := i5 g hg
+            refine ⟨⟨e, List.mem_append.2 (Or.inl hm), hx, hin⟩, ?_⟩
+            intro e' hm' hx'
+            rcases List.mem_append.1 hm' with hm' | hm'
+            · exact hno e' hm' hx'
+            · simp at hm'; subst hm'
+              have := i1 e hm
+              simp at hx'; omega
+        · intro hne e hm hin hno
+          rw [hrun, endBlock_grace, updateGrace_grace]
+          rw [he] at hm hno
+          rcases List.mem_append.1 hm with hm | hm
+          · obtain ⟨g, hg1, hg2⟩ := i6 hne e hm hin
+              (fun e' hm' hx' => hno e' (List.mem_append.2 (Or.inl hm')) hx')
+            have := i1 e hm
+            split
+            · exact ⟨_, by omega, rfl⟩
+            · exact ⟨g, hg1, hg2⟩
+          · simp at hm; subst hm
+            simp only at hin hno ⊢
+            have hnew : (decodeSet ((run St.init ops).prev.getD [])).contains a = false := by
+              by_cases hfirst : heightAfter h0 ops = h0
+              · rw [i3 hfirst]
+                simp only [Option.getD_none, decodeSet_nil]
+                simp [hne]
+              · obtain ⟨e', hm', hx'⟩ := i2 (heightAfter h0 ops - 1) (by omega) (by omega)
+                rw [i4 e' hm' (by omega)]
+                simp only [Option.getD_some]
+                have hn := hno e' (List.mem_append.2 (Or.inl hm')) (by omega)
+                cases hc : (decodeSet (encodeSet (unjailedAddrs e'.2.2))).contains a with
+                | false => rfl
+                | true =>
+                  rw [List.contains_eq_mem] at hc
+                  have := (codec_mem_lem _ _).1 (of_decide_eq_true hc)
+                  rcases this with h1 | ⟨_, h1⟩
+                  · exact absurd h1 hn
+                  · exact absurd h1 hne
+            rw [if_pos ⟨hin, hnew⟩]
+            exact ⟨_, Int.le_refl _, rfl⟩
+      | _ => simp [isEB] at heb
+
+
+/-! ### one staking entry per address -/
+
+def addrsOf (l : List Val) : List Addr := l.map (·.addr)
+
+theorem addrsOf_updVal (l : List Val) (a : Addr) (f : Val → Val) (hf : ∀ v, (f v).addr = v.addr) :
+    addrsOf (updVal l a f) = addrsOf l := by
+  unfold addrsOf updVal
+  rw [List.map_map]
+  apply List.map_congr_left
+  intro v _
+  simp only [Function.comp]
+  split <;> simp [hf]
+
+theorem addrsOf_setJailed (l : List Val) (a : Addr) (j : Bool) : addrsOf (setJailed l a j) = addrsOf l :=
+  addrsOf_updVal l a _ (fun _ => rfl)
+
+theorem findVal_none_iff (l : List Val) (a : Addr) : findVal l a = none ↔ a ∉ addrsOf l := by
+  unfold findVal addrsOf
+  rw [List.find?_eq_none]
+  simp only [List.mem_map, not_exists, not_and, beq_iff_eq]
+
+theorem mem_insertVal (v w : Val) (l : List Val) : w ∈ insertVal v l ↔ w = v ∨ w ∈ l := by
+  induction l with
+  | nil => simp [insertVal]
+  | cons x xs ih =>
+    unfold insertVal
+    split
+    · simp
+    · simp only [List.mem_cons, ih]
+      constructor
+      · rintro (h | h | h)
+        · exact Or.inr (Or.inl h)
+        · exact Or.inl h
+        · exact Or.inr (Or.inr h)
+      · rintro (h | h | h)
+        · exact Or.inr (Or.inl h)
+        · exact Or.inl h
+        · exact Or.inr (Or.inr h)
+
+theorem nodup_insertVal (v : Val) (l : List Val) (hn : v.addr ∉ addrsOf l) (hd : (addrsOf l).Nodup) :
+    (addrsOf (insertVal v l)).Nodup := by
+  induction l with
+  | nil => simp [insertVal, addrsOf]
+  | cons x xs ih =>
+    unfold addrsOf at *
+    simp only [List.map_cons, List.mem_cons, not_or, List.nodup_cons] at hn hd
+    unfold insertVal
+    split
+    · simp only [List.map_cons, List.nodup_cons, List.mem_cons, not_or]
+      exact ⟨⟨hn.1, hn.2⟩, hd.1, hd.2⟩
+    · simp only [List.map_cons, List.nodup_cons]
+      refine ⟨?_, ih hn.2 hd.2⟩
+      intro hm
+      obtain ⟨w, hw, he⟩ := List.mem_map.1 hm
+      rcases (mem_insertVal v w xs).1 hw with h | h
+      · subst h; exact hn.1 he
+      · exact hd.1 (he ▸ List.mem_map.2 ⟨w, h, rfl⟩)
+
+theorem addrsOf_jailed (s : St) (t : Int) (b : Addr) : addrsOf (jailed s t b).vals = addrsOf s.vals :=
+  addrsOf_setJailed _ _ _
+
+theorem addrsOf_jail (s : St) (t : Int) (b : Addr) : addrsOf (jail s t b).1.vals = addrsOf s.vals := by
+  rcases jail_cases s t b with h | ⟨_, _, _, _, h⟩
+  · rw [h]
+  · rw [h]; exact addrsOf_jailed s t b
+
+theorem addrsOf_sweepStep (h t : Int) (s : St) (w : Val) :
+    addrsOf (sweepStep h t s w).vals = addrsOf s.vals := by
+  rcases sweepStep_cases h t s w with h1 | ⟨_, _, _, _, h1⟩
+  · rw [h1]
+  · rw [h1]; exact addrsOf_jailed s t _
+
+theorem addrsOf_foldl (h t : Int) (l : List Val) (s : St) :
+    addrsOf (l.foldl (sweepStep h t) s).vals = addrsOf s.vals := by
+  induction l generalizing s with
+  | nil => rfl
+  | cons w ws ih => simp only [List.foldl_cons]; rw [ih, addrsOf_sweepStep]
+
+theorem addrsOf_endBlock (s : St) (h t : Int) : addrsOf (endBlock s h t).vals = addrsOf s.vals := by
+  unfold endBlock
+  split
+  · unfold sweep; rw [addrsOf_foldl]; rfl
+  · rfl
+
+theorem apply_nodup (s : St) (op : Op) (hd : (addrsOf s.vals).Nodup) : (addrsOf (apply s op).vals).Nodup := by
+  cases op with
+  | addVal v =>
+    simp only [apply, addVal]
+    split
+    · exact hd
+    · rename_i hf
+      have : findVal s.vals v.addr = none := by simpa using hf
+      exact nodup_insertVal v s.vals ((findVal_none_iff _ _).1 this) hd
+  | setStatus a st =>
+    simp only [apply, setStatus]; split
+    · exact hd
+    · show (addrsOf (updVal s.vals a (fun v => { v with status := st }))).Nodup
+      rw [addrsOf_updVal s.vals a (fun v => { v with status := st }) (fun _ => rfl)]; exact hd
+  | setPower a p =>
+    simp only [apply, setPower]; split
+    · exact hd
+    · show (addrsOf (updVal s.vals a (fun v => { v with power := p }))).Nodup
+      rw [addrsOf_updVal s.vals a (fun v => { v with power := p }) (fun _ => rfl)]; exact hd
+  | extJail a =>
+    simp only [apply, extJail]; split
+    · exact hd
+    · show (addrsOf (setJailed _ _ _)).Nodup; rw [addrsOf_setJailed]; exact hd
+  | extUnjail a =>
+    simp only [apply, extUnjail]; split
+    · exact hd
+    · show (addrsOf (setJailed _ _ _)).Nodup; rw [addrsOf_setJailed]; exact hd
+  | unjail t a =>
+    simp only [apply, unjail]
+    split
+    · exact hd
+    · split
+      · exact hd
+      · split
+        · exact hd
+        · show (addrsOf (setJailed _ _ _)).Nodup; rw [addrsOf_setJailed]; exact hd
+  | jail t a => simp only [apply]; rw [addrsOf_jail]; exact hd
+  | keepAlive h a ver =>
+    simp only [apply, keepAlive]
+    split
+    · exact hd
+    · split <;> exact hd
+  | setMinVersion v => simp only [apply, setMinVersion]; split <;> exact hd
+  | scheduleMinVersion v n => simp only [apply, scheduleMinVersion]; split <;> exact hd
+  | proposal h v n =>
+    simp only [apply, proposal, setMinVersion, scheduleMinVersion]
+    split <;> split <;> exact hd
+  | beginBlock h => simp only [apply]; rw [(beginBlock_stores s h).1]; exact hd
+  | endBlock h t => simp only [apply]; rw [addrsOf_endBlock]; exact hd
+
+theorem run_nodup (s : St) (ops : List Op) (hd : (addrsOf s.vals).Nodup) :
+    (addrsOf (run s ops).vals).Nodup := by
+  induction ops generalizing s with
+  | nil => exact hd
+  | cons op rest ih => exact ih (apply s op) (apply_nodup s op hd)
+
+theorem findVal_of_mem_nodup (l : List Val) (v : Val) (hd : (addrsOf l).Nodup) (hm : v ∈ l) :
+    findVal l v.addr = some v := by
+  induction l with
+  | nil => cases hm
+  | cons x xs ih =>
+    unfold addrsOf at hd ih
+    simp only [List.map_cons, List.nodup_cons] at hd
+    unfold findVal
+    rcases List.mem_cons.1 hm with e | e
+    · subst e; simp
+    · have hne : x.addr ≠ v.addr := fun he => hd.1 (he ▸ List.mem_map.2 ⟨v, e, rfl⟩)
+      have hb : (x.addr == v.addr) = false := by simp [hne]
+      simp only [List.find?_cons, hb]
+      have := ih hd.2 e
+      unfold findVal at this
+      exact this
+
+/-! ### the sweep, entry by entry -/
+
+/-- the state in which the sweep of the end block of height `h` reaches the entry that follows the
+entries `l1` of the list of unjailed validators -/
+def sweepAt (s : St) (h t : Int) (l1 : List Val) : St := l1.foldl (sweepStep h t) (updateGrace s h)
+
+theorem sweepStep_other (h t : Int) (s : St) (w : Val) (a : Addr) (hne : w.addr ≠ a) :
+    isJailed (sweepStep h t s w) a = isJailed s a ∧
+    findVal (sweepStep h t s w).vals a = findVal s.vals a := by
+  rcases sweepStep_cases h t s w with h1 | ⟨_, _, _, _, h1⟩
+  · rw [h1]; exact ⟨rfl, rfl⟩
+  · rw [h1]
+    have hne' : a ≠ w.addr := fun e => hne e.symm
+    refine ⟨?_, findVal_jailed_other s t a w.addr hne'⟩
+    rw [isJailed_jailed]; simp [hne']
+
+theorem foldl_other (h t : Int) (l : List Val) (s : St) (a : Addr) (hne : ∀ w ∈ l, w.addr ≠ a) :
+    isJailed (l.foldl (sweepStep h t) s) a = isJailed s a ∧
+    findVal (l.foldl (sweepStep h t) s).vals a = findVal s.vals a := by
+  induction l generalizing s with
+  | nil => exact ⟨rfl, rfl⟩
+  | cons w ws ih =>
+    simp only [List.foldl_cons]
+    obtain ⟨h1, h2⟩ := ih (sweepStep h t s w) (fun x hx => hne x (List.mem_cons_of_mem _ hx))
+    obtain ⟨h3, h4⟩ := sweepStep_other h t s w a (hne w (by simp))
+    exact ⟨h1.trans h3, h2.trans h4⟩
+
+/-- the iteration on a due entry: `Jail` is called, and it goes through iff the validator is not
+shielded in the state reached so far -/
+theorem sweepStep_due_exact (h t : Int) (s : St) (v : Val)
+    (hst : v.status = .bonded ∨ v.status = .unbonding)
+    (hal : isAlive s v.addr h = false) (hgr : inGrace s v.addr h = false)
+    (hf : findVal s.vals v.addr = some v) (hj : v.jailed = false) :
+    isJailed (sweepStep h t s v) v.addr = !protectedIn s.vals (consPower v) := by
+  have hstep : sweepStep h t s v = (jail s t v.addr).1 := by
+    unfold sweepStep
+    have h1 : (v.status == Status.bonded || v.status == Status.unbonding) = true := by
+      rcases hst with e | e <;> simp [e]
+    have h2 : isJailed s v.addr = false := by rw [isJailed_of_findVal s _ _ hf]; exact hj
+    simp [h1, hal, hgr, h2]
+  rw [hstep]
+  rcases jail_unjailed s t v.addr v hf hj with ⟨hp, he⟩ | ⟨hp, he⟩
+  · rw [he, hp, isJailed_of_findVal s _ _ hf, hj]; rfl
+  · rw [he, hp, isJailed_jailed]; simp [hf]
+
+theorem isJailed_foldl_mono (h t : Int) (l : List Val) (s : St) (a : Addr) (hj : isJailed s a = true) :
+    isJailed (l.foldl (sweepStep h t) s) a = true := by
+  induction l generalizing s with
+  | nil => exact hj
+  | cons w ws ih =>
+    simp only [List.foldl_cons]
+    apply ih
+    rcases sweepStep_cases h t s w with h1 | ⟨_, _, _, _, h1⟩
+    · rw [h1]; exact hj
+    · rw [h1, isJailed_jailed, hj]; rfl
+
+/-- **exact outcome of a sweep for a due validator.** With one staking entry per address: the
+sweep jails a due validator iff, in the state the sweep has reached when it is that validator's
+turn (after the jailings of the entries before it), it is not shielded by `Jail`'s rules. -/
+theorem sweep_exact (s : St) (h t : Int) (l1 l2 : List Val) (v : Val)
+    (hd : (addrsOf s.vals).Nodup) (hsplit : unjailedVals s = l1 ++ v :: l2)
+    (hst : v.status = .bonded ∨ v.status = .unbonding)
+    (hal : isAlive s v.addr h = false) (hgr : inGrace (updateGrace s h) v.addr h = false) :
+    findVal (sweepAt s h t l1).vals v.addr = some v ∧
+    isJailed (sweep (updateGrace s h) h t) v.addr = !protectedIn (sweepAt s h t l1).vals (consPower v) := by
+  have hmem : v ∈ unjailedVals s := by rw [hsplit]; simp
+  have hv : v ∈ s.vals ∧ v.jailed = false := by
+    unfold unjailedVals at hmem
+    have := List.mem_filter.1 hmem
+    exact ⟨this.1, by simpa using this.2⟩
+  have hfv : findVal s.vals v.addr = some v := findVal_of_mem_nodup _ _ hd hv.1
+  have hdu : (addrsOf (unjailedVals s)).Nodup :=
+    List.Nodup.sublist (List.Sublist.map _ List.filter_sublist) hd
+  rw [hsplit] at hdu
+  unfold addrsOf at hdu
+  simp only [List.map_append, List.map_cons] at hdu
+  obtain ⟨_, hd2, hd3⟩ := List.nodup_append.1 hdu
+  have hne1 : ∀ w ∈ l1, w.addr ≠ v.addr := fun w hw =>
+    hd3 _ (List.mem_map.2 ⟨w, hw, rfl⟩) _ (by simp)
+  have hne2 : ∀ w ∈ l2, w.addr ≠ v.addr := fun w hw e =>
+    (List.nodup_cons.1 hd2).1 (e ▸ List.mem_map.2 ⟨w, hw, rfl⟩)
+  obtain ⟨m1, m2⟩ := foldl_other h t l1 (updateGrace s h) v.addr hne1
+  have hfm : findVal (sweepAt s h t l1).vals v.addr = some v := by
+    unfold sweepAt; rw [m2]; exact hfv
+  refine ⟨hfm, ?_⟩
+  have hsame := sameStores_foldl h t l1 (updateGrace s h)
+  have hal' : isAlive (sweepAt s h t l1) v.addr h = false := by
+    unfold sweepAt; rw [isAlive_congr _ _ hsame.1]; exact hal
+  have hgr' : inGrace (sweepAt s h t l1) v.addr h = false := by
+    unfold sweepAt; rw [inGrace_congr _ _ hsame.2.1]; exact hgr
+  have hstep := sweepStep_due_exact h t (sweepAt s h t l1) v hst hal' hgr' hfm hv.2
+  have hsweep : sweep (updateGrace s h) h t
+      = l2.foldl (sweepStep h t) (sweepStep h t (sweepAt s h t l1) v) := by
+    unfold sweep sweepAt
+    have : unjailedVals (updateGrace s h) = l1 ++ v :: l2 := hsplit
+    rw [this, List.foldl_append, List.foldl_cons]
+  rw [hsweep, (foldl_other h t l2 _ v.addr hne2).1, hstep]
+
+/-- protection only grows along a sweep: the active power never increases, and once a single active
+validator is left nothing more is jailed -/
+theorem protected_mono_foldl (h t : Int) (l : List Val) (s : St) (p : Nat)
+    (hp : protectedIn s.vals p = true) : protectedIn (l.foldl (sweepStep h t) s).vals p = true := by
+  induction l generalizing s with
+  | nil => exact hp
+  | cons w ws ih =>
+    simp only [List.foldl_cons]
+    apply ih
+    rcases sweepStep_cases h t s w with h1 | ⟨vb, _, _, hpb, h1⟩
+    · rw [h1]; exact hp
+    · rw [h1]
+      rcases (protectedIn_iff _ _).1 hp with h2 | h2
+      · have : protectedIn s.vals (consPower vb) = true := (protectedIn_iff _ _).2 (Or.inl h2)
+        rw [hpb] at this; cases this
+      · have := activeTotal_jailed_le s t w.addr
+        exact (protectedIn_iff _ _).2 (Or.inr (by omega))
+
+/-! ### what an end block does to the jail record of one validator -/
+
+theorem endBlock_jail_effect (s : St) (h t : Int) (a : Addr) :
+    (isJailed (endBlock s h t) a = isJailed s a ∧ (endBlock s h t).jailLog.get a = s.jailLog.get a ∧
+      (endBlock s h t).jailedUntil.get a = s.jailedUntil.get a) ∨
+    (isJailed s a = false ∧ isJailed (endBlock s h t) a = true ∧
+      (endBlock s h t).jailLog.get a
+        = some { duration := nextSentence (s.jailLog.get a) t, jailedAt := t } ∧
+      (endBlock s h t).jailedUntil.get a = some (t + nextSentence (s.jailLog.get a) t)) := by
+  have inv : ∀ (l : List Val) (s' : St),
+      ((isJailed s' a = isJailed s a ∧ s'.jailLog.get a = s.jailLog.get a ∧
+          s'.jailedUntil.get a = s.jailedUntil.get a) ∨
+        (isJailed s a = false ∧ isJailed s' a = true ∧
+          s'.jailLog.get a = some { duration := nextSentence (s.jailLog.get a) t, jailedAt := t } ∧
+          s'.jailedUntil.get a = some (t + nextSentence (s.jailLog.get a) t))) →
+      ((isJailed (l.foldl (sweepStep h t) s') a = isJailed s a ∧
+          (l.foldl (sweepStep h t) s').jailLog.get a = s.jailLog.get a ∧
+          (l.foldl (sweepStep h t) s').jailedUntil.get a = s.jailedUntil.get a) ∨
+        (isJailed s a = false ∧ isJailed (l.foldl (sweepStep h t) s') a = true ∧
+          (l.foldl (sweepStep h t) s').jailLog.get a
+            = some { duration := nextSentence (s.jailLog.get a) t, jailedAt := t } ∧
+          (l.foldl (sweepStep h t) s').jailedUntil.get a = some (t + nextSentence (s.jailLog.get a) t))) := by
+    intro l
+    induction l with
+    | nil => intro s' hs; exact hs
+    | cons w ws ih =>
+      intro s' hs
+      simp only [List.foldl_cons]
+      apply ih
+      rcases sweepStep_cases h t s' w with h1 | ⟨vb, hfb, hjb, _, h1⟩
+      · rw [h1]; exact hs
+      · rw [h1]
+        by_cases hwa : a = w.addr
+        · subst hwa
+          have hnj : isJailed s' w.addr = false := by rw [isJailed_of_findVal s' _ _ hfb]; exact hjb
+          rcases hs with ⟨e1, e2, e3⟩ | ⟨_, e2, _⟩
+          · right
+            refine ⟨by rw [← e1]; exact hnj, by rw [isJailed_jailed]; simp [hfb], ?_, ?_⟩
+            · simp [jailed, Map.get_set, e2]
+            · simp [jailed, Map.get_set, e2]
+          · rw [hnj] at e2; cases e2
+        · have hj' : isJailed (jailed s' t w.addr) a = isJailed s' a := by
+            rw [isJailed_jailed]; simp [hwa]
+          have hl' : (jailed s' t w.addr).jailLog.get a = s'.jailLog.get a := by
+            simp [jailed, Map.get_set, hwa]
+          have hu' : (jailed s' t w.addr).jailedUntil.get a = s'.jailedUntil.get a := by
+            simp [jailed, Map.get_set, hwa]
+          rw [hj', hl', hu']; exact hs
+  unfold endBlock
+  split
+  · exact inv _ (updateGrace s h) (Or.inl ⟨rfl, rfl, rfl⟩)
+  · exact Or.inl ⟨rfl, rfl, rfl⟩
+
+/-- the jail record a history of jailings at the given times leads to -/
+def recAfter (r : Option JailRec) (ts : List Int) : Option JailRec :=
+  ts.foldl (fun r t => some { duration := nextSentence r t, jailedAt := t }) r
+
+theorem recAfter_append (r : Option JailRec) (a b : List Int) :
+    recAfter r (a ++ b) = recAfter (recAfter r a) b := by
+  unfold recAfter; rw [List.foldl_append]
+
+theorem apply_jailLog (s : St) (op : Op) (a : Addr) :
+    (apply s op).jailLog.get a = recAfter (s.jailLog.get a) (jailOf a s op) := by
+  cases op with
+  | addVal v => simp only [apply, addVal]; split <;> rfl
+  | setStatus b st => simp only [apply, setStatus]; split <;> rfl
+  | setPower b p => simp only [apply, setPower]; split <;> rfl
+  | extJail b => simp only [apply, extJail]; split <;> rfl
+  | extUnjail b => simp only [apply, extUnjail]; split <;> rfl
+  | unjail t b =>
+    simp only [apply, unjail]
+    split
+    · rfl
+    · split
+      · rfl
+      · split <;> rfl
+  | jail t b =>
+    simp only [apply, jailOf]
+    rcases jail_cases s t b with h | ⟨_, _, _, _, h⟩
+    · rw [h]; simp [recAfter]
+    · rw [h]
+      by_cases hba : b = a
+      · subst hba; simp [recAfter, jailed, Map.get_set]
+      · have : a ≠ b := fun e => hba e.symm
+        simp [recAfter, jailed, Map.get_set, hba, this]
+  | keepAlive h b ver =>
+    simp only [apply, keepAlive]
+    split
+    · rfl
+    · split <;> rfl
+  | setMinVersion v => simp only [apply, setMinVersion]; split <;> rfl
+  | scheduleMinVersion v n => simp only [apply, scheduleMinVersion]; split <;> rfl
+  | proposal h v n =>
+    simp only [apply, proposal, setMinVersion, scheduleMinVersion]
+    split <;> split <;> rfl
+  | beginBlock h =>
+    simp only [apply, beginBlock, setMinVersion]
+    split
+    · rfl
+    · split
+      · split <;> rfl
+      · rfl
+  | endBlock h t =>
+    simp only [apply, jailOf]
+    rcases endBlock_jail_effect s h t a with ⟨e1, e2, _⟩ | ⟨e1, e2, e3, _⟩
+    · have : ¬ (isJailed s a = false ∧ isJailed (endBlock s h t) a = true) := by
+        rw [e1]; intro ⟨x, y⟩; rw [x] at y; cases y
+      simp only [this, if_false, recAfter, List.foldl_nil]; exact e2
+    · simp only [e1, e2, and_self, if_true, recAfter, List.foldl_cons, List.foldl_nil]; exact e3
+
+
+theorem isAlive_false_of_history (h0 : Int) (a : Addr) (ops : List Op) (h : Int)
+    (hw : wf h0 ops = true) (hka : ∀ hk ∈ acceptedKA a ops, hk + keepAliveTTL ≤ h) :
+    isAlive (run St.init ops) a h = false := by
+  unfold isAlive
+  cases hg : (run St.init ops).alive.get a with
+  | none => rfl
+  | some u =>
+    obtain ⟨hk, hm, hu⟩ := (aliveInv h0 a ops hw).prov u hg
+    have := hka hk hm
+    simp only [decide_eq_false_iff_not]
+    omega
+
+theorem inGrace_false_of_history (h0 : Int) (a : Addr) (ops : List Op)
+    (hw : wf h0 ops = true) (hlong : h0 + gracePeriod < heightAfter h0 ops)
+    (hun : ∀ e ∈ endBlocks ops, heightAfter h0 ops - gracePeriod - 1 ≤ e.1 → a ∈ unjailedAddrs e.2.2) :
+    inGrace (updateGrace (run St.init ops) (heightAfter h0 ops)) a (heightAfter h0 ops) = false := by
+  obtain ⟨i1, i2, _, i4, i5, _⟩ := graceInv h0 a ops hw
+  have hgp : gracePeriod = 30 := rfl
+  -- the previous end block exists and listed `a`
+  obtain ⟨e, he, hx⟩ := i2 (heightAfter h0 ops - 1) (by omega) (by omega)
+  have hprev := i4 e he (by omega)
+  have hin : a ∈ unjailedAddrs e.2.2 := hun e he (by omega)
+  have hsame : (updateGrace (run St.init ops) (heightAfter h0 ops)).grace.get a
+      = (run St.init ops).grace.get a := by
+    have := grace_only_when_new_lem (run St.init ops) (heightAfter h0 ops) 0 _ a hprev hin
+    rw [endBlock_grace] at this
+    exact this
+  unfold inGrace
+  rw [hsame]
+  cases hg : (run St.init ops).grace.get a with
+  | none => rfl
+  | some g =>
+    simp only [decide_eq_false_iff_not]
+    intro hle
+    obtain ⟨⟨e1, he1, hx1, _⟩, hno⟩ := i5 g hg
+    have hr := i1 e1 he1
+    obtain ⟨e2, he2, hx2⟩ := i2 (g - 1) (by omega) (by omega)
+    exact hno e2 he2 (by omega) (hun e2 he2 (by omega))
+
+/-- the situation the liveness clause talks about, stated on the HISTORY: `ops` is a well-formed
+block history from the initial state that has reached the end of block `h`, a sweep height;
+`v` is the staking entry of an unjailed, bonded or unbonding validator;
+every accepted keep-alive for it is at least 2000 blocks old ("no accepted keep-alive for longer
+than the lifetime"); and it was in the unjailed set at every end block of the last 31 heights
+("it did not become unjailed within the grace period"). -/
+def Due (h0 : Int) (ops : List Op) (h : Int) (v : Val) : Prop :=
+  wf h0 ops = true ∧ heightAfter h0 ops = h ∧ isSweepHeight h = true ∧
+  findVal (run St.init ops).vals v.addr = some v ∧ v.jailed = false ∧
+  (v.status = .bonded ∨ v.status = .unbonding) ∧
+  (∀ hk ∈ acceptedKA v.addr ops, hk + keepAliveTTL ≤ h) ∧
+  h0 + gracePeriod < h ∧
+  (∀ e ∈ endBlocks ops, h - gracePeriod - 1 ≤ e.1 → v.addr ∈ unjailedAddrs e.2.2)
+
+instance (h0 : Int) (ops : List Op) (h : Int) (v : Val) : Decidable (Due h0 ops h v) := by
+  unfold Due; infer_instance
+
+theorem nodup_init (ops : List Op) : (addrsOf (run St.init ops).vals).Nodup :=
+  run_nodup St.init ops (by simp [St.init, addrsOf])
+
+theorem run_endBlock_sweep (ops : List Op) (h t : Int) (hs : isSweepHeight h = true) :
+    run St.init (ops ++ [.endBlock h t]) = sweep (updateGrace (run St.init ops) h) h t := by
+  rw [run_snoc]; simp [apply, endBlock, hs]
+
+theorem sweep_split (s : St) (h t : Int) (l1 l2 : List Val) (v : Val)
+    (hsplit : unjailedVals s = l1 ++ v :: l2) :
+    sweep (updateGrace s h) h t = (v :: l2).foldl (sweepStep h t) (sweepAt s h t l1) := by
+  unfold sweep sweepAt
+  have : unjailedVals (updateGrace s h) = l1 ++ v :: l2 := hsplit
+  rw [this, List.foldl_append]
+
+theorem unbonding_of_not_active (v : Val) (hj : v.jailed = false)
+    (hst : v.status = .bonded ∨ v.status = .unbonding) (hna : isActive v = false) :
+    v.status = .unbonding := by
+  rcases hst with e | e
+  · simp [isActive, e, hj] at hna
+  · exact e
+
+
+/-! ### the witness of the known finding -/
+
+/-- one block with no transactions -/
+def plainBlock (h : Int) : List Op := [.beginBlock h, .endBlock h (1000 * h)]
+
+/-- blocks `1 … n` without transactions -/
+def plainBlocks (n : Nat) : List Op := (List.range n).flatMap (fun (k : Nat) => plainBlock ((k : Int) + 1))
+
+/-- the history of the known finding: validator `[1]` bonded with power 10, validator `[2, 0x2c]`
+unbonding (unjailed, 3 tokens), a keep-alive for `[1]` only, then blocks 1 … 59 and the begin of
+block 60 -/
+def lvgHistory : List Op :=
+  [ .addVal { addr := [1], status := .bonded, jailed := false, power := 10 },
+    .addVal { addr := [2, 0x2c], status := .unbonding, jailed := false, power := 3 },
+    .keepAlive 1 [1] defaultMinVersion ] ++ plainBlocks 59 ++ [.beginBlock 60]
+
+def lvgVal : Val := { addr := [2, 0x2c], status := .unbonding, jailed := false, power := 3 }
+
+set_option maxRecDepth 100000 in
+theorem lvg_due : Due 1 lvgHistory 60 lvgVal := by decide
+
+
+set_option maxRecDepth 100000 in
+theorem lvg_outcome :
+    isJailed (run St.init (lvgHistory ++ [.endBlock 60 60000])) lvgVal.addr = false ∧
+    ¬ (4 * consPower lvgVal > activeTotal (run St.init (lvgHistory ++ [.endBlock 60 60000])).vals) ∧
+    activeCount (run St.init (lvgHistory ++ [.endBlock 60 60000])).vals = 1 ∧
+    isActive lvgVal = false ∧ lvgVal.status = .unbonding ∧
+    -- nobody at all was jailed: the states before, during and after the sweep have the same staking view
+    (run St.init (lvgHistory ++ [.endBlock 60 60000])).vals = (run St.init lvgHistory).vals := by
+  decide
+
+/-- transitivity of the version order, mixed form -/
+theorem vlt_of_vlt_of_vle (a b c : Ver) (h1 : vlt a b = true) (h2 : vle b c) : vlt a c = true := by
+  unfold vle vlt at *
+  rcases lexLt_trichotomy (vkey b) (vkey c) with h | h | h
+  · exact lexLt_trans _ _ _ h1 h
+  · rw [← h]; exact h1
+  · rw [h2] at h; cases h
+
+def nextSweep (x : Int) : Int := x + (10 - x % 10) % 10
+
+theorem nextSweep_spec (x : Int) (hx : sweepMinHeight + 1 ≤ x) :
+    isSweepHeight (nextSweep x) = true ∧ x ≤ nextSweep x ∧ nextSweep x ≤ x + 9 := by
+  unfold nextSweep
+  refine ⟨?_, by omega, by omega⟩
+  simp only [isSweepHeight, sweepMinHeight, sweepPeriod, Bool.and_eq_true, beq_iff_eq] at *
+  exact ⟨decide_eq_true (by omega), by omega⟩
+
+/-- a well-formed history that has passed height `D` contains the end block of height `D` -/
+theorem endBlock_split (h0 : Int) (ops : List Op) (D : Int) (hw : wf h0 ops = true)
+    (h1 : h0 ≤ D) (h2 : D < heightAfter h0 ops) :
+    ∃ pre t post, ops = pre ++ .endBlock D t :: post ∧ wf h0 pre = true ∧ heightAfter h0 pre = D := by
+  obtain ⟨e, he, hx⟩ := (graceInv h0 [] ops hw).eb_exists D h1 h2
+  unfold endBlocks at he
+  obtain ⟨pre, op, post, hsplit, hm⟩ := (mem_collect_iff ebOf St.init ops e).1 he
+  cases op with
+  | endBlock h t =>
+    simp only [ebOf, List.mem_singleton] at hm
+    subst hm
+    simp only at hx
+    subst hx
+    rw [hsplit, wf_append, Bool.and_eq_true] at hw
+    obtain ⟨hw1, hw2⟩ := hw
+    simp only [wf, Bool.and_eq_true, opHeightOK, beq_iff_eq] at hw2
+    exact ⟨pre, t, post, hsplit, hw1, hw2.1.symm⟩
+  | _ => simp [ebOf] at hm
+
+/-- the fixed schedule by index: `jailSentences[min k 4]` -/
+def sched : Nat → Int
+  | 0 => minute
+  | 1 => 5 * minute
+  | 2 => 15 * minute
+  | 3 => 60 * minute
+  | _ => 1440 * minute
+
+theorem sched_derive (k : Nat) : deriveSentence (sched k) = sched (k + 1) := by
+  match k with
+  | 0 => decide
+  | 1 => decide
+  | 2 => decide
+  | 3 => decide
+  | n + 4 => show deriveSentence (1440 * minute) = 1440 * minute; decide
+
+theorem sched_spec (k : Nat) : jailSentences[min k 4]? = some (sched k) := by
+  match k with
+  | 0 => rfl
+  | 1 => rfl
+  | 2 => rfl
+  | 3 => rfl
+  | n + 4 =>
+    have : min (n + 4) 4 = 4 := by omega
+    rw [this]; rfl
+
+/-- every further jailing falls inside the reset threshold of the sentence before it -/
+def escalating (k : Nat) (t : Int) : List Int → Prop
+  | [] => True
+  | t' :: rest => t' - t < resetThreshold (sched k) ∧ escalating (k + 1) t' rest
+
+theorem recAfter_streak (k : Nat) (t : Int) (rest : List Int) (h : escalating k t rest) :
+    (recAfter (some { duration := sched k, jailedAt := t }) rest).map (·.duration)
+      = some (sched (k + rest.length)) := by
+  induction rest generalizing k t with
+  | nil => rfl
+  | cons t' rest ih =>
+    obtain ⟨h1, h2⟩ := h
+    have hn : nextSentence (some { duration := sched k, jailedAt := t }) t' = sched (k + 1) := by
+      simp only [nextSentence, Option.getD_some, h1, if_true]
+      exact sched_derive k
+    have : recAfter (some { duration := sched k, jailedAt := t }) (t' :: rest)
+        = recAfter (some { duration := sched (k + 1), jailedAt := t' }) rest := by
+      simp only [recAfter, List.foldl_cons, hn]
+    rw [this, ih (k + 1) t' h2]
+    simp only [List.length_cons]
+    congr 2
+    omega
+
+/-- a jailing starts a new streak: no record yet, or the previous one is older than its threshold -/
+def fresh (r : Option JailRec) (t : Int) : Prop :=
+  (r = none ∧ 0 ≤ t) ∨ (∃ x, r = some x ∧ ¬ (t - x.jailedAt < resetThreshold x.duration))
+
+theorem nextSentence_fresh (r : Option JailRec) (t : Int) (h : fresh r t) : nextSentence r t = minute := by
+  rcases h with ⟨rfl, ht⟩ | ⟨x, rfl, hx⟩
+  · simp only [nextSentence, Option.getD_none]
+    have : ¬ (t - zeroTime < resetThreshold minute) := by
+      have : resetThreshold minute = 1800000000000 := by decide
+      rw [this]
+      simp only [zeroTime]
+      omega
+    simp only [this, if_false]
+    decide
+  · simp only [nextSentence, Option.getD_some, hx, if_false]
+    decide
+
+theorem run_jailLog (s : St) (ops : List Op) (a : Addr) :
+    (run s ops).jailLog.get a = recAfter (s.jailLog.get a) (jailTimes a s ops) := by
+  induction ops generalizing s with
+  | nil => rfl
+  | cons op rest ih =>
+    show (run (apply s op) rest).jailLog.get a = _
+    rw [ih (apply s op), apply_jailLog s op a]
+    unfold jailTimes
+    simp only [collect]
+    rw [recAfter_append]
+
+
+theorem recAfter_cons (r : Option JailRec) (t : Int) (ts : List Int) :
+    recAfter r (t :: ts) = recAfter (some { duration := nextSentence r t, jailedAt := t }) ts := rfl
+
+
+/-! ### histories used by the non-vacuity examples -/
+
+/-- block `h` (2 s blocks) with the given transactions -/
+def blockWith (h : Int) (txs : List Op) : List Op :=
+  [.beginBlock h] ++ txs ++ [.endBlock h (2000000000 * h)]
+
+/-- blocks `a+1 … a+n` without transactions -/
+def quietBlocks (a : Int) (n : Nat) : List Op :=
+  (List.range n).flatMap (fun (k : Nat) => blockWith (a + (k : Int) + 1) [])
+
+/-- five validators of power 10 each, none of them ever sends a keep-alive -/
+def fiveSilent : List Op :=
+  [ .addVal { addr := [0x2c, 1], status := .bonded, jailed := false, power := 10 },
+    .addVal { addr := [0x2c, 0x2c], status := .bonded, jailed := false, power := 10 },
+    .addVal { addr := [7], status := .bonded, jailed := false, power := 10 },
+    .addVal { addr := [9, 0x2c], status := .bonded, jailed := false, power := 10 },
+    .addVal { addr := [10], status := .bonded, jailed := false, power := 10 } ]
+  ++ quietBlocks 0 59 ++ [.beginBlock 60]
+
+def lastOfFive : Val := { addr := [9, 0x2c], status := .bonded, jailed := false, power := 10 }
+
+/-- four validators: `[0x2c]` (power 10) is silent, the three others (30 each) keep alive -/
+def escHead : List Op :=
+  [ .addVal { addr := [0x2c], status := .bonded, jailed := false, power := 10 },
+    .addVal { addr := [1], status := .bonded, jailed := false, power := 30 },
+    .addVal { addr := [2], status := .bonded, jailed := false, power := 30 },
+    .addVal { addr := [3], status := .bonded, jailed := false, power := 30 },
+    .keepAlive 1 [1] defaultMinVersion, .keepAlive 1 [2] defaultMinVersion,
+    .keepAlive 1 [3] [118, 50, 46, 52, 46, 48],
+    -- refused: "v1.11.2" is older than the minimum, and [0x2c] stays without keep-alive
+    .keepAlive 1 [0x2c] [118, 49, 46, 49, 49, 46, 50] ]
+
+def escVal : Val := { addr := [0x2c], status := .bonded, jailed := false, power := 10 }
+
+/-- up to the begin of block 60 -/
+def escTo60 : List Op := escHead ++ quietBlocks 0 59 ++ [.beginBlock 60]
+
+/-- jailed at 60 for one minute (30 blocks), `MsgUnjail` in block 91, grace until 121, jailed again
+at 130 -/
+def escTo130 : List Op :=
+  escHead ++ quietBlocks 0 90 ++ blockWith 91 [.unjail (2000000000 * 91) [0x2c]] ++ quietBlocks 91 39
+
+
+
+end Lemmas
+
+
+/-! ## Property theorems (C12) -/
+
+/-- **codec_roundtrip.** Decoding the stored snapshot gives back exactly the list of addresses
+that was encoded, for ALL byte strings (0x2c inside, all-0x2c, empty, prefixes of one another).
+The only artefact: the empty list decodes to the set containing the empty address, as in Go
+(`strings.Split("", ",")` is `[""]`); no validator has the empty address. -/
+theorem codec_roundtrip (l : List Addr) :
+    decodeSet (encodeSet l) = if l = [] then [[]] else l := codec_roundtrip_lem l
+
+/-- **codec_roundtrip (membership form).** An address is found in the stored snapshot iff it was
+stored — the lemma the raw `bytes.Join(…, ",")` format of the pinned tree fails. -/
+theorem codec_mem (l : List Addr) (a : Addr) :
+    a ∈ decodeSet (encodeSet l) ↔ a ∈ l ∨ (l = [] ∧ a = []) := codec_mem_lem l a
 
 /-- the hex encoding of an address is injective and never contains the separator -/
 theorem codec_hex_injective_no_separator (a b : Addr) :
@@ -752,14 +1887,7 @@ theorem codec_hex_injective_no_separator (a b : Addr) :
 at the previous end block) does not get a new grace period, whatever bytes its address contains. -/
 theorem grace_only_when_new (s : St) (h t : Int) (l : List Addr) (a : Addr)
     (hprev : s.prev = some (encodeSet l)) (ha : a ∈ l) :
-    (endBlock s h t).grace.get a = s.grace.get a := by
-  rw [endBlock_grace, updateGrace_grace, hprev]
-  have hl : l ≠ [] := fun e => by subst e; cases ha
-  have : (decodeSet ((some (encodeSet l)).getD [])).contains a = true := by
-    simp only [Option.getD_some]
-    rw [codec_roundtrip]; simp [hl, ha]
-  rw [this]
-  simp
+    (endBlock s h t).grace.get a = s.grace.get a := grace_only_when_new_lem s h t l a hprev ha
 
 /-- **grace_only_when_new (two consecutive end blocks).** If `a` is unjailed when block `h` ends,
 then — whatever happens in between that is not an end block — the end block of the next block
@@ -822,8 +1950,10 @@ theorem grace_when_new (s : St) (h t : Int) (a : Addr)
 /-- **inactive_jailed_at_next_sweep.** At a sweep height, a validator that is unjailed, bonded or
 unbonding, whose keep-alive is missing or expired and that is not in its grace period (as the end
 block itself has just updated it) is jailed by that end block — unless `Jail` refuses: then it is
-shielded by the network-protection rules in the resulting state (exactly one active validator is
-left, or its consensus power exceeds 25 % of what is left active). -/
+refused: exactly one active validator is left IN THE RESULTING STATE (whether or not it is `v`: the
+code's rule is global, see `jailedOrProtected`), or `v`'s consensus power exceeds 25 % of what is left
+active. Step level, arbitrary state; the hypotheses are derived from a history, the state of the
+25 % test is made exact and the exception is split in `inactive_jailed_history(_exact)`. -/
 theorem inactive_jailed_at_next_sweep (s : St) (h t : Int) (v : Val)
     (hsweep : isSweepHeight h = true)
     (hf : findVal s.vals v.addr = some v) (hj : v.jailed = false)
@@ -870,8 +2000,9 @@ theorem next_sweep_bound (e g : Int) :
 snapshot of the previous block, with no keep-alive valid at or after height `h`. Run the blocks
 `h … h+n` without transactions (arbitrary block times). If `h+n` is a sweep height outside the
 grace period, then at the end `a` is jailed (possibly by an earlier sweep of the window) or shielded
-by the network-protection rules. With `next_sweep_bound` this is "jailed within 10 + 30 blocks of
-expiry unless protected". -/
+by `Jail`'s rules. SPECIAL CASE (planted start state, no transactions) kept from the first version;
+the general statements — arbitrary interleaved operations, from `St.init`, hypotheses on the history,
+composed with the sweep bound — are `inactive_jailed_history` and `inactive_jailed_by_deadline`. -/
 theorem inactive_jailed_within_window (s : St) (h : Int) (τ : Int → Int) (n : Nat) (v : Val) (l : List Addr)
     (hf : findVal s.vals v.addr = some v) (hj : v.jailed = false)
     (hst : v.status = .bonded ∨ v.status = .unbonding)
@@ -964,7 +2095,8 @@ theorem no_jail_off_sweep (s : St) (h t : Int) (hs : isSweepHeight h = false) :
   simp [hs, updateGrace]
 
 /-- **old_version_refused.** A keep-alive from a relayer older than the minimum required version
-is refused and changes nothing. -/
+is refused and changes nothing (step level; both directions of the acceptance test:
+`keepAlive_result`; over histories: `old_version_refused_forever`, `older_than_default_refused`). -/
 theorem old_version_refused (s : St) (h : Int) (a : Addr) (ver : Ver)
     (hold : vlt ver s.minVersion = true) : keepAlive s h a ver = (s, .rejected) := by
   unfold keepAlive
@@ -1362,10 +2494,12 @@ theorem last_validator_blocks_sweep (s : St) (h t : Int) (hc : activeCount s.val
   · exact inv _ (updateGrace s h) hc
   · rfl
 
-/-- **watch item (code as it is).** The "last validator" rule of `Jail` is global: while exactly
+/-- **known finding `C12-last-validator-global` (code as it is), step level.** The "last validator"
+rule of `Jail` is global: while exactly
 one bonded unjailed validator exists, `Jail` refuses EVERY target, also an unbonding validator
 that is not that last active one. (The 25 % rule, in contrast, never shields a validator that is
-not bonded: its consensus power counts as 0.) -/
+not bonded: its consensus power counts as 0.) This REFUTES the liveness clause as written:
+`liveness_as_written_false`, with a witness history from `St.init` (`fourth_disjunct_reachable`). -/
 theorem last_validator_rule_is_global (s : St) (t : Int) (a : Addr)
     (hc : activeCount s.vals = 1) : jail s t a = (s, .rejected) := by
   cases hf : findVal s.vals a with
@@ -1377,6 +2511,487 @@ theorem quarter_rule_ignores_not_bonded (s : St) (v : Val) (h : v.status ≠ .bo
   have : consPower v = 0 := by simp [consPower, h]
   rw [protectedIn_iff, this]
   simp
+
+
+/-! ## History-level theorems -/
+
+/-- **liveness, exact, over histories.** In every well-formed block history (arbitrary interleaved
+transactions, stake changes, jailings and unjailings) that reaches a sweep height with a validator
+that is `Due`, the end block jails it iff it is not shielded by `Jail`'s rules in the state the
+sweep has reached when it is that validator's turn, i.e. after the jailings of the entries `l1`
+that precede it in store order. -/
+theorem inactive_jailed_history_exact (h0 : Int) (ops : List Op) (h t : Int) (v : Val)
+    (hd : Due h0 ops h v) :
+    ∃ l1 l2, unjailedVals (run St.init ops) = l1 ++ v :: l2 ∧
+      findVal (sweepAt (run St.init ops) h t l1).vals v.addr = some v ∧
+      isJailed (run St.init (ops ++ [.endBlock h t])) v.addr
+        = !protectedIn (sweepAt (run St.init ops) h t l1).vals (consPower v) := by
+  obtain ⟨hw, hh, hs, hf, hj, hst, hka, hlong, hun⟩ := hd
+  have hmem : v ∈ unjailedVals (run St.init ops) := by
+    unfold unjailedVals
+    exact List.mem_filter.2 ⟨findVal_mem _ _ _ hf, by simp [hj]⟩
+  obtain ⟨l1, l2, hsplit⟩ := List.append_of_mem hmem
+  refine ⟨l1, l2, hsplit, ?_⟩
+  have hal := isAlive_false_of_history h0 v.addr ops h hw hka
+  subst hh
+  have hgr := inGrace_false_of_history h0 v.addr ops hw hlong hun
+  rw [run_endBlock_sweep ops _ t hs]
+  exact sweep_exact _ _ t l1 l2 v (nodup_init ops) hsplit hst hal hgr
+
+/-- **liveness with the exception split into its four parts.** A `Due` validator is, after the end
+block, jailed — or it holds more than 25 % of the bonded power (at its turn in the sweep) — or it
+is the last active validator — or (FOURTH disjunct, not in the property text: known finding
+`C12-last-validator-global`) exactly one OTHER validator is active and `v` is an unbonding one:
+`Jail`'s `count == 1` test does not look at the target. -/
+theorem inactive_jailed_history (h0 : Int) (ops : List Op) (h t : Int) (v : Val)
+    (hd : Due h0 ops h v) :
+    ∃ l1 l2, unjailedVals (run St.init ops) = l1 ++ v :: l2 ∧
+      (isJailed (run St.init (ops ++ [.endBlock h t])) v.addr = true ∨
+       4 * consPower v > activeTotal (sweepAt (run St.init ops) h t l1).vals ∨
+       (activeCount (sweepAt (run St.init ops) h t l1).vals = 1 ∧ isActive v = true) ∨
+       (activeCount (sweepAt (run St.init ops) h t l1).vals = 1 ∧ isActive v = false ∧
+          v.status = .unbonding)) := by
+  obtain ⟨l1, l2, hsplit, _, hex⟩ := inactive_jailed_history_exact h0 ops h t v hd
+  refine ⟨l1, l2, hsplit, ?_⟩
+  cases hp : protectedIn (sweepAt (run St.init ops) h t l1).vals (consPower v) with
+  | false => left; rw [hex, hp]; rfl
+  | true =>
+    right
+    rcases (protectedIn_iff _ _).1 hp with hc | hq
+    · right
+      cases ha : isActive v with
+      | true => exact Or.inl ⟨hc, rfl⟩
+      | false => exact Or.inr ⟨hc, rfl, unbonding_of_not_active v hd.2.2.2.2.1 hd.2.2.2.2.2.1 ha⟩
+    · exact Or.inl hq
+
+/-- the same in terms of the state AFTER the end block only (weaker: the sweep only lowers the
+active power, so being shielded at one's turn implies being shielded in the resulting state) -/
+theorem inactive_jailed_history_post (h0 : Int) (ops : List Op) (h t : Int) (v : Val)
+    (hd : Due h0 ops h v) :
+    isJailed (run St.init (ops ++ [.endBlock h t])) v.addr = true ∨
+    4 * consPower v > activeTotal (run St.init (ops ++ [.endBlock h t])).vals ∨
+    (activeCount (run St.init (ops ++ [.endBlock h t])).vals = 1 ∧ isActive v = true) ∨
+    (activeCount (run St.init (ops ++ [.endBlock h t])).vals = 1 ∧ isActive v = false ∧
+      v.status = .unbonding) := by
+  obtain ⟨l1, l2, hsplit, _, hex⟩ := inactive_jailed_history_exact h0 ops h t v hd
+  cases hp : protectedIn (sweepAt (run St.init ops) h t l1).vals (consPower v) with
+  | false => left; rw [hex, hp]; rfl
+  | true =>
+    right
+    have hpost : protectedIn (run St.init (ops ++ [.endBlock h t])).vals (consPower v) = true := by
+      rw [run_endBlock_sweep ops h t hd.2.2.1, sweep_split _ h t l1 l2 v hsplit]
+      exact protected_mono_foldl h t _ _ _ hp
+    rcases (protectedIn_iff _ _).1 hpost with hc | hq
+    · right
+      cases ha : isActive v with
+      | true => exact Or.inl ⟨hc, rfl⟩
+      | false => exact Or.inr ⟨hc, rfl, unbonding_of_not_active v hd.2.2.2.2.1 hd.2.2.2.2.2.1 ha⟩
+    · exact Or.inl hq
+
+
+/-! ### what the history functions mean -/
+
+/-- `hk ∈ acceptedKA a ops`: the history contains a keep-alive for `a` at height `hk` that was
+ACCEPTED in the state reached by the operations before it -/
+theorem mem_acceptedKA_iff (a : Addr) (ops : List Op) (hk : Int) :
+    hk ∈ acceptedKA a ops ↔ ∃ pre ver post, ops = pre ++ .keepAlive hk a ver :: post ∧
+      (keepAlive (run St.init pre) hk a ver).2 = .ok := by
+  unfold acceptedKA
+  rw [mem_collect_iff]
+  constructor
+  · rintro ⟨pre, op, post, e, hm⟩
+    cases op with
+    | keepAlive h b ver =>
+      simp only [kaOf] at hm
+      split at hm
+      · rename_i hc
+        simp only [List.mem_singleton] at hm
+        obtain ⟨rfl, hacc⟩ := hc
+        subst hm
+        exact ⟨pre, ver, post, e, hacc⟩
+      · cases hm
+    | _ => simp [kaOf] at hm
+  · rintro ⟨pre, ver, post, e, hacc⟩
+    exact ⟨pre, _, post, e, by simp [kaOf, hacc]⟩
+
+/-- `(g, t, sg) ∈ endBlocks ops`: the history contains `endBlock g t`, executed in state `sg` -/
+theorem mem_endBlocks_iff (ops : List Op) (g t : Int) (sg : St) :
+    (g, t, sg) ∈ endBlocks ops ↔ ∃ pre post, ops = pre ++ .endBlock g t :: post ∧ sg = run St.init pre := by
+  unfold endBlocks
+  rw [mem_collect_iff]
+  constructor
+  · rintro ⟨pre, op, post, e, hm⟩
+    cases op with
+    | endBlock h t' =>
+      simp only [ebOf, List.mem_singleton, Prod.mk.injEq] at hm
+      obtain ⟨rfl, rfl, rfl⟩ := hm
+      exact ⟨pre, post, e, rfl⟩
+    | _ => simp [ebOf] at hm
+  · rintro ⟨pre, post, e, rfl⟩
+    exact ⟨pre, _, post, e, by simp [ebOf]⟩
+
+/-- `t ∈ jailTimes a s ops`: the history contains a direct `Jail` of `a` at time `t` that went
+through, or an end block with time `t` whose sweep turned `a`'s jailed flag from false to true -/
+theorem mem_jailTimes_iff (a : Addr) (s : St) (ops : List Op) (t : Int) :
+    t ∈ jailTimes a s ops ↔
+      (∃ pre post, ops = pre ++ .jail t a :: post ∧ (jail (run s pre) t a).2 = .ok) ∨
+      (∃ pre h post, ops = pre ++ .endBlock h t :: post ∧ isJailed (run s pre) a = false ∧
+        isJailed (run s (pre ++ [.endBlock h t])) a = true) := by
+  unfold jailTimes
+  rw [mem_collect_iff]
+  constructor
+  · rintro ⟨pre, op, post, e, hm⟩
+    cases op with
+    | jail t' b =>
+      simp only [jailOf] at hm
+      split at hm
+      · rename_i hc
+        simp only [List.mem_singleton] at hm
+        obtain ⟨rfl, hok⟩ := hc
+        subst hm
+        exact Or.inl ⟨pre, post, e, hok⟩
+      · cases hm
+    | endBlock h t' =>
+      simp only [jailOf] at hm
+      split at hm
+      · rename_i hc
+        simp only [List.mem_singleton] at hm
+        subst hm
+        exact Or.inr ⟨pre, h, post, e, hc.1, by rw [run_snoc]; exact hc.2⟩
+      · cases hm
+    | _ => simp [jailOf] at hm
+  · rintro (⟨pre, post, e, hok⟩ | ⟨pre, h, post, e, h1, h2⟩)
+    · exact ⟨pre, _, post, e, by simp [jailOf, hok]⟩
+    · refine ⟨pre, _, post, e, ?_⟩
+      rw [run_snoc] at h2
+      simp only [jailOf]
+      rw [if_pos ⟨h1, h2⟩]
+      simp
+
+/-! ### the liveness clause as written is false; the fourth disjunct is reachable -/
+
+/-- **the known finding, as a theorem from `St.init`.** There is a well-formed history from the
+initial state — two validators, one bonded and kept alive, one unbonding and silent, blocks 1 … 60 —
+after which the silent unbonding validator is `Due` at the sweep of height 60, is NOT jailed, holds
+no bonded power at all and is not an active validator: only the fourth disjunct of
+`inactive_jailed_history` holds. (`Jail` refuses because `count == 1`, whoever the target is.
+Reproduced on the real implementation by the harness: monitor `inactive_jailed`,
+`last-validator-global`, known finding `C12-last-validator-global`.) -/
+theorem fourth_disjunct_reachable :
+    ∃ ops h t v, Due 1 ops h v ∧
+      isJailed (run St.init (ops ++ [.endBlock h t])) v.addr = false ∧
+      ¬ (4 * consPower v > activeTotal (run St.init (ops ++ [.endBlock h t])).vals) ∧
+      isActive v = false ∧
+      activeCount (run St.init (ops ++ [.endBlock h t])).vals = 1 ∧ v.status = .unbonding ∧
+      (run St.init (ops ++ [.endBlock h t])).vals = (run St.init ops).vals :=
+  ⟨lvgHistory, 60, 60000, lvgVal, lvg_due, lvg_outcome.1, lvg_outcome.2.1, lvg_outcome.2.2.2.1,
+    lvg_outcome.2.2.1, lvg_outcome.2.2.2.2.1, lvg_outcome.2.2.2.2.2⟩
+
+/-- **the liveness clause exactly as the property states it is FALSE** (for the model, and — known
+finding — for the code): "every due validator is jailed at the next sweep unless it holds more than
+25 % of the bonded power or is the last active validator". The full-strength statement is kept here
+in negated form; `inactive_jailed_history` is the true statement with the explicit extra disjunct. -/
+theorem liveness_as_written_false :
+    ¬ (∀ (h0 : Int) (ops : List Op) (h t : Int) (v : Val), Due h0 ops h v →
+        isJailed (run St.init (ops ++ [.endBlock h t])) v.addr = true ∨
+        4 * consPower v > activeTotal (run St.init (ops ++ [.endBlock h t])).vals ∨
+        (activeCount (run St.init (ops ++ [.endBlock h t])).vals = 1 ∧ isActive v = true)) := by
+  intro hall
+  rcases hall 1 lvgHistory 60 60000 lvgVal lvg_due with h | h | h
+  · rw [lvg_outcome.1] at h; cases h
+  · exact lvg_outcome.2.1 h
+  · rw [lvg_outcome.2.2.2.1] at h; cases h.2
+
+/-- the fourth disjunct needs exactly this constellation: with at least two active validators at
+its turn, a due validator that holds no more than 25 % is jailed (so the clause as written holds
+whenever the sweep sees `count ≠ 1`) -/
+theorem inactive_jailed_history_two_active (h0 : Int) (ops : List Op) (h t : Int) (v : Val)
+    (hd : Due h0 ops h v) :
+    ∃ l1 l2, unjailedVals (run St.init ops) = l1 ++ v :: l2 ∧
+      (activeCount (sweepAt (run St.init ops) h t l1).vals ≠ 1 →
+        ¬ (4 * consPower v > activeTotal (sweepAt (run St.init ops) h t l1).vals) →
+        isJailed (run St.init (ops ++ [.endBlock h t])) v.addr = true) := by
+  obtain ⟨l1, l2, hsplit, hor⟩ := inactive_jailed_history h0 ops h t v hd
+  refine ⟨l1, l2, hsplit, fun hc hq => ?_⟩
+  rcases hor with h1 | h1 | h1 | h1
+  · exact h1
+  · exact absurd h1 hq
+  · exact absurd h1.1 hc
+  · exact absurd h1.1 hc
+
+/-! ### keep-alive store: provenance, and the safety clause over histories -/
+
+/-- **provenance of the keep-alive store.** After any well-formed history the stored
+`AliveUntilBlockHeight` of `a` is `hk + 2000` for an ACCEPTED keep-alive op of the history at height
+`hk`, and it is at least `hk' + 2000` for every accepted keep-alive of the history. -/
+theorem alive_provenance (h0 : Int) (a : Addr) (ops : List Op) (hw : wf h0 ops = true) :
+    (∀ u, (run St.init ops).alive.get a = some u → ∃ hk ∈ acceptedKA a ops, u = hk + keepAliveTTL) ∧
+    (∀ hk ∈ acceptedKA a ops, ∃ u, (run St.init ops).alive.get a = some u ∧ hk + keepAliveTTL ≤ u) ∧
+    (∀ hk ∈ acceptedKA a ops, hk ≤ heightAfter h0 ops) :=
+  ⟨(aliveInv h0 a ops hw).prov, (aliveInv h0 a ops hw).latest, (aliveInv h0 a ops hw).ka_le⟩
+
+/-- "has an unexpired keep-alive", in terms of the history only -/
+theorem alive_iff_history (h0 : Int) (a : Addr) (ops : List Op) (h : Int) (hw : wf h0 ops = true) :
+    isAlive (run St.init ops) a h = true ↔ ∃ hk ∈ acceptedKA a ops, h < hk + keepAliveTTL := by
+  obtain ⟨_, i2, i3⟩ := aliveInv h0 a ops hw
+  unfold isAlive
+  constructor
+  · intro hal
+    cases hg : (run St.init ops).alive.get a with
+    | none => rw [hg] at hal; cases hal
+    | some u =>
+      rw [hg] at hal
+      obtain ⟨hk, hm, hu⟩ := i2 u hg
+      exact ⟨hk, hm, by have := of_decide_eq_true hal; omega⟩
+  · rintro ⟨hk, hm, hlt⟩
+    obtain ⟨u, hu, hle⟩ := i3 hk hm
+    rw [hu]
+    exact decide_eq_true (by omega)
+
+/-- **alive_never_jailed, over histories.** In every well-formed block history: if the history
+contains an accepted keep-alive for `a` at a height `hk` with `h < hk + 2000`, the end block of
+height `h` does not change `a`'s jailed flag — whatever else happened. -/
+theorem alive_never_jailed_history (h0 : Int) (a : Addr) (ops : List Op) (h t hk : Int)
+    (hw : wf h0 (ops ++ [.endBlock h t]) = true)
+    (hm : hk ∈ acceptedKA a ops) (hlt : h < hk + keepAliveTTL) :
+    isJailed (run St.init (ops ++ [.endBlock h t])) a = isJailed (run St.init ops) a := by
+  rw [wf_snoc, Bool.and_eq_true] at hw
+  rw [run_snoc]
+  exact alive_never_jailed_for_inactivity _ h t a
+    ((alive_iff_history h0 a ops h hw.1).2 ⟨hk, hm, hlt⟩)
+
+/-- **jail provenance for end blocks.** If an end block of a well-formed history turns `a`'s jailed
+flag on, then it is a sweep height, every accepted keep-alive of the history for `a` is at least 2000
+blocks old, and `a` is not in a grace period. -/
+theorem jailed_by_endBlock_only_if (h0 : Int) (a : Addr) (ops : List Op) (h t : Int)
+    (hw : wf h0 (ops ++ [.endBlock h t]) = true)
+    (hbefore : isJailed (run St.init ops) a = false)
+    (hafter : isJailed (run St.init (ops ++ [.endBlock h t])) a = true) :
+    isSweepHeight h = true ∧ (∀ hk ∈ acceptedKA a ops, hk + keepAliveTTL ≤ h) ∧
+    inGrace (updateGrace (run St.init ops) h) a h = false := by
+  have hw' := hw
+  rw [wf_snoc, Bool.and_eq_true] at hw'
+  rw [run_snoc] at hafter
+  refine ⟨?_, ?_, ?_⟩
+  · cases hs : isSweepHeight h with
+    | true => rfl
+    | false =>
+      have := no_jail_off_sweep (run St.init ops) h t hs
+      simp only [apply] at hafter
+      rw [isJailed_congr_vals _ _ this, hbefore] at hafter
+      cases hafter
+  · intro hk hm
+    by_cases hlt : h < hk + keepAliveTTL
+    · have := alive_never_jailed_history h0 a ops h t hk hw hm hlt
+      rw [run_snoc, hafter, hbefore] at this
+      cases this
+    · omega
+  · cases hg : inGrace (updateGrace (run St.init ops) h) a h with
+    | false => rfl
+    | true =>
+      have := grace_never_jailed (run St.init ops) h t a hg
+      simp only [apply] at hafter
+      rw [hafter, hbefore] at this
+      cases this
+
+/-! ### snapshot and grace stores: provenance -/
+
+/-- **provenance of the stored snapshot.** After a well-formed history the snapshot is absent iff
+no end block has run, and otherwise it is the hex encoding of the validators that were unjailed when
+the end block of the previous height ran. (The legacy format can not arise from `St.init`.) -/
+theorem prev_provenance (h0 : Int) (ops : List Op) (hw : wf h0 ops = true) :
+    (heightAfter h0 ops = h0 → (run St.init ops).prev = none) ∧
+    (∀ e ∈ endBlocks ops, e.1 + 1 = heightAfter h0 ops →
+      (run St.init ops).prev = some (encodeSet (unjailedAddrs e.2.2))) ∧
+    (∀ g, h0 ≤ g → g < heightAfter h0 ops → ∃ e ∈ endBlocks ops, e.1 = g) ∧
+    (∀ e ∈ endBlocks ops, h0 ≤ e.1 ∧ e.1 < heightAfter h0 ops) :=
+  ⟨(graceInv h0 [] ops hw).prev_none, (graceInv h0 [] ops hw).prev_prov,
+   (graceInv h0 [] ops hw).eb_exists, (graceInv h0 [] ops hw).eb_range⟩
+
+/-- **provenance of the grace store.** A grace record `g` of `a` after a well-formed history means:
+the end block of height `g` is in the history and `a` was unjailed when it ran, and `a` was NOT
+unjailed (or not a validator) when the end block of height `g - 1` ran, if there was one — "it became
+unjailed at height `g`". -/
+theorem grace_provenance (h0 : Int) (a : Addr) (ops : List Op) (hw : wf h0 ops = true) (g : Int)
+    (hg : (run St.init ops).grace.get a = some g) :
+    (∃ e ∈ endBlocks ops, e.1 = g ∧ a ∈ unjailedAddrs e.2.2) ∧
+    (∀ e ∈ endBlocks ops, e.1 + 1 = g → a ∉ unjailedAddrs e.2.2) :=
+  (graceInv h0 a ops hw).grace_prov g hg
+
+/-- **the grace exception, over histories (converse of the grace hypothesis of `Due`).** If `a`
+(not the empty address) was unjailed when some end block of height `g ≥ h - 30` of the history ran —
+possibly the end block of `h` itself — and was not unjailed when the end block of `g - 1` ran (or there
+was none), then the end block of height `h` does not change its jailed flag. -/
+theorem became_unjailed_within_grace_not_jailed (h0 : Int) (a : Addr) (ops : List Op) (h t : Int)
+    (hw : wf h0 (ops ++ [.endBlock h t]) = true) (hne : a ≠ [])
+    (e : Int × Int × St) (he : e ∈ endBlocks (ops ++ [.endBlock h t]))
+    (hrecent : h - gracePeriod ≤ e.1) (hin : a ∈ unjailedAddrs e.2.2)
+    (hnew : ∀ e' ∈ endBlocks (ops ++ [.endBlock h t]), e'.1 + 1 = e.1 → a ∉ unjailedAddrs e'.2.2) :
+    isJailed (run St.init (ops ++ [.endBlock h t])) a = isJailed (run St.init ops) a := by
+  have inv := graceInv h0 a _ hw
+  obtain ⟨g, hg1, hg2⟩ := inv.grace_lb hne e he hin hnew
+  obtain ⟨⟨e1, he1, hx1, _⟩, _⟩ := inv.grace_prov g hg2
+  have hr := inv.eb_range e1 he1
+  have hw' := hw
+  rw [wf_snoc, Bool.and_eq_true] at hw'
+  have hh : h = heightAfter h0 ops := by simpa [opHeightOK] using hw'.2
+  rw [heightAfter_snoc] at hr
+  simp only [nextH, isEB, if_true] at hr
+  rw [run_snoc] at hg2 ⊢
+  simp only [apply] at hg2 ⊢
+  apply grace_never_jailed
+  rw [endBlock_grace] at hg2
+  unfold inGrace
+  rw [hg2]
+  exact decide_eq_true (by omega)
+
+/-! ### bounded time -/
+
+/-- **jailed within 10 + 30 blocks.** Let `e` bound the expiry of every accepted keep-alive of `a`
+and let `a` be unjailed at every end block from height `g` on. Then the deadline
+`D = nextSweep (max e (g+31) 51)` (the first sweep height at or after all three) is at most 9 blocks after the later of expiry / end of grace / first
+sweep, and every well-formed history that runs past `D` contains the end block of `D`, at which `a`
+— if it still is an unjailed bonded or unbonding validator — is `Due`, hence jailed or under one of
+the three exceptions of `inactive_jailed_history_post`. -/
+theorem inactive_jailed_by_deadline (h0 : Int) (ops : List Op) (a : Addr) (e g D : Int)
+    (hw : wf h0 ops = true) (hg0 : h0 ≤ g)
+    (hD : D = nextSweep (max (max e (g + gracePeriod + 1)) (sweepMinHeight + 1)))
+    (hpast : D < heightAfter h0 ops)
+    (hka : ∀ hk ∈ acceptedKA a ops, hk ≤ D → hk + keepAliveTTL ≤ e)
+    (hun : ∀ x ∈ endBlocks ops, g ≤ x.1 → x.1 < D → a ∈ unjailedAddrs x.2.2) :
+    D ≤ max (max e (g + gracePeriod + 1)) (sweepMinHeight + 1) + 9 ∧
+    ∃ pre t post,
+      ops = pre ++ .endBlock D t :: post ∧
+      ∀ v, v.addr = a → findVal (run St.init pre).vals a = some v → v.jailed = false →
+        (v.status = .bonded ∨ v.status = .unbonding) →
+        Due h0 pre D v ∧
+        (isJailed (run St.init (pre ++ [.endBlock D t])) a = true ∨
+         4 * consPower v > activeTotal (run St.init (pre ++ [.endBlock D t])).vals ∨
+         (activeCount (run St.init (pre ++ [.endBlock D t])).vals = 1 ∧ isActive v = true) ∨
+         (activeCount (run St.init (pre ++ [.endBlock D t])).vals = 1 ∧ isActive v = false ∧
+            v.status = .unbonding)) := by
+  subst hD
+  have hgp : gracePeriod = 30 := rfl
+  have hsm : sweepMinHeight = 50 := rfl
+  obtain ⟨hs1, hs2, hs3⟩ := nextSweep_spec (max (max e (g + gracePeriod + 1)) (sweepMinHeight + 1)) (by omega)
+  refine ⟨hs3, ?_⟩
+  generalize nextSweep (max (max e (g + gracePeriod + 1)) (sweepMinHeight + 1)) = D at *
+  obtain ⟨pre, t, post, hsplit, hwp, hhp⟩ := endBlock_split h0 ops D hw (by omega) hpast
+  refine ⟨pre, t, post, hsplit, ?_⟩
+  intro v hva hf hj hst
+  subst hva
+  have hsubKA : ∀ hk ∈ acceptedKA v.addr pre, hk ∈ acceptedKA v.addr ops := by
+    intro hk hm
+    unfold acceptedKA at *
+    rw [hsplit, collect_append]
+    exact List.mem_append.2 (Or.inl hm)
+  have hsubEB : ∀ x ∈ endBlocks pre, x ∈ endBlocks ops := by
+    intro x hm
+    unfold endBlocks at *
+    rw [hsplit, collect_append]
+    exact List.mem_append.2 (Or.inl hm)
+  have hdue : Due h0 pre D v := by
+    refine ⟨hwp, hhp, hs1, hf, hj, hst, ?_, by omega, ?_⟩
+    · intro hk hm
+      have h1 := (aliveInv h0 v.addr pre hwp).ka_le hk hm
+      have := hka hk (hsubKA hk hm) (by omega)
+      omega
+    · intro x hm hx
+      have h1 := (graceInv h0 v.addr pre hwp).eb_range x hm
+      exact hun x (hsubEB x hm) (by omega) (by omega)
+  exact ⟨hdue, inactive_jailed_history_post h0 pre D t v hdue⟩
+
+/-! ### sentences along the schedule, tied to the number of previous jailings -/
+
+/-- **provenance of the jail log.** In every history the jail record of `a` is a function of the
+TIMES of the successful valset jailings of `a` in that history (`jailTimes`, see
+`mem_jailTimes_iff`): each jailing maps the previous record to
+`{nextSentence previous t, t}`; nothing else ever writes it. -/
+theorem jailLog_eq_history (ops : List Op) (a : Addr) :
+    (run St.init ops).jailLog.get a = recAfter none (jailTimes a St.init ops) :=
+  run_jailLog St.init ops a
+
+/-- **repeated jailings lengthen the sentence along the fixed schedule.** If the jailings of `a` in
+a history happened at times `… , t1, t2, …, tn` (oldest first) where `t1` starts a streak (no
+record before it, or the record before it is older than its reset threshold) and every later one
+falls within the reset threshold of its predecessor's sentence, then the sentence now on record is
+`jailSentences[min (n-1) 4]`: 1 min, 5 min, 15 min, 1 h, 24 h, 24 h, … -/
+theorem repeated_jailings_escalate (ops : List Op) (a : Addr) (before : List Int) (t1 : Int)
+    (rest : List Int) (hjt : jailTimes a St.init ops = before ++ t1 :: rest)
+    (hfresh : fresh (recAfter none before) t1) (hesc : escalating 0 t1 rest) :
+    ((run St.init ops).jailLog.get a).map (·.duration) = some (sched rest.length) ∧
+    jailSentences[min rest.length 4]? = some (sched rest.length) := by
+  refine ⟨?_, sched_spec _⟩
+  rw [jailLog_eq_history, hjt, recAfter_append]
+  have : recAfter (recAfter none before) (t1 :: rest)
+      = recAfter (some { duration := sched 0, jailedAt := t1 }) rest := by
+    rw [recAfter_cons, nextSentence_fresh _ _ hfresh]
+    rfl
+  rw [this, recAfter_streak 0 t1 rest hesc]
+  simp
+
+/-- a jailing after the reset threshold starts again at one minute, whatever the record says -/
+theorem jailing_after_threshold_resets (ops : List Op) (a : Addr) (before : List Int) (t1 : Int)
+    (hjt : jailTimes a St.init ops = before ++ [t1]) (hfresh : fresh (recAfter none before) t1) :
+    (run St.init ops).jailLog.get a = some { duration := minute, jailedAt := t1 } := by
+  rw [jailLog_eq_history, hjt, recAfter_append]
+  rw [recAfter_cons, nextSentence_fresh _ _ hfresh]
+  rfl
+
+/-! ### version gate over histories -/
+
+/-- the result of a keep-alive, both directions, and the rejected branch changes nothing -/
+theorem keepAlive_result (s : St) (h : Int) (a : Addr) (ver : Ver) :
+    ((keepAlive s h a ver).2 = .ok ↔ (findVal s.vals a).isSome = true ∧ vlt ver s.minVersion = false) ∧
+    ((keepAlive s h a ver).2 = .rejected → (keepAlive s h a ver).1 = s) ∧
+    ((keepAlive s h a ver).2 = .ok →
+      (keepAlive s h a ver).1 = { s with alive := s.alive.set a (h + keepAliveTTL) }) := by
+  unfold keepAlive
+  cases hf : findVal s.vals a with
+  | none => simp
+  | some v =>
+    cases hv : vlt ver s.minVersion with
+    | true => simp
+    | false => simp
+
+/-- **old_version_refused, over histories.** Once the minimum version is `m` (at any point of any
+history), a keep-alive from a relayer older than `m` is refused at every later point, whatever
+happened in between (the minimum never decreases); in particular a relayer older than the built-in
+default `v1.11.3` is refused in every state reachable from `St.init`. -/
+theorem old_version_refused_forever (s : St) (ops : List Op) (h : Int) (a : Addr) (ver : Ver)
+    (hold : vlt ver s.minVersion = true) :
+    keepAlive (run s ops) h a ver = (run s ops, .rejected) :=
+  old_version_refused (run s ops) h a ver
+    (vlt_of_vlt_of_vle ver s.minVersion _ hold (min_version_monotone s ops))
+
+theorem older_than_default_refused (ops : List Op) (h : Int) (a : Addr) (ver : Ver)
+    (hold : vlt ver defaultMinVersion = true) :
+    keepAlive (run St.init ops) h a ver = (run St.init ops, .rejected) ∧
+    acceptedKA a (ops ++ [.keepAlive h a ver]) = acceptedKA a ops := by
+  have h1 := old_version_refused_forever St.init ops h a ver hold
+  refine ⟨h1, ?_⟩
+  unfold acceptedKA
+  rw [collect_snoc]
+  simp [kaOf, h1]
+
+
+set_option maxRecDepth 100000 in
+/-- **the 25 % rule is evaluated at the validator's turn, not before the sweep.** From `St.init`:
+five equal silent validators are all `Due` at height 60; before the sweep each holds 10 of 50
+(20 %, not shielded, five active validators); the sweep jails the first two in store order and then
+refuses the other three, which by then hold 10 of 30. So "holds more than 25 % of bonded power"
+is true of them only in the state `sweepAt` of `inactive_jailed_history_exact`. -/
+theorem quarter_rule_evaluated_at_turn :
+    Due 1 fiveSilent 60 lastOfFive ∧
+    ¬ (4 * consPower lastOfFive > activeTotal (run St.init fiveSilent).vals) ∧
+    activeCount (run St.init fiveSilent).vals = 5 ∧
+    isJailed (run St.init (fiveSilent ++ [.endBlock 60 120000000000])) lastOfFive.addr = false ∧
+    isJailed (run St.init (fiveSilent ++ [.endBlock 60 120000000000])) [7] = true ∧
+    isJailed (run St.init (fiveSilent ++ [.endBlock 60 120000000000])) [10] = true ∧
+    activeTotal (run St.init (fiveSilent ++ [.endBlock 60 120000000000])).vals = 30 := by
+  decide
+
+
 
 /-! ## Non-vacuity -/
 
@@ -1406,8 +3021,9 @@ example : isSweepHeight 60 = true ∧ findVal exState.vals [0x2c, 0x01]
     isJailed (endBlock exState 60 1000) [0x0a] = false ∧
     protectedIn (endBlock exState 60 1000).vals 10 = true := by decide
 
-/-- the watch item is reachable: one active validator, one unbonding inactive validator with an
-expired keep-alive — the sweep does not jail the unbonding one -/
+/-- the known finding on a planted state (from `St.init` through `run`: `fourth_disjunct_reachable`):
+one active validator, one unbonding inactive validator with an expired keep-alive — the sweep does
+not jail the unbonding one -/
 example :
     let s : St := { St.init with
       vals := [ { addr := [1], status := .bonded, jailed := false, power := 10 },
@@ -1452,5 +3068,55 @@ minutes it is reset to 1 minute -/
 example : nextSentence (some { duration := minute, jailedAt := 0 }) (10 * minute) = 5 * minute ∧
     nextSentence (some { duration := minute, jailedAt := 0 }) (31 * minute) = minute ∧
     nextSentence none 1704067200000000000 = minute := by decide
+
+
+set_option maxRecDepth 100000 in
+/-- non-vacuity through `run St.init`: the silent validator is `Due` at 60 and jailed there (its
+refused keep-alive does not count); an alive one is untouched -/
+example : Due 1 escTo60 60 escVal ∧ acceptedKA [0x2c] escTo60 = [] ∧ acceptedKA [3] escTo60 = [1] ∧
+    isJailed (run St.init (escTo60 ++ [.endBlock 60 120000000000])) [0x2c] = true ∧
+    isJailed (run St.init (escTo60 ++ [.endBlock 60 120000000000])) [3] = false ∧
+    (run St.init (escTo60 ++ [.endBlock 60 120000000000])).jailLog.get [0x2c]
+      = some { duration := minute, jailedAt := 120000000000 } := by decide
+
+set_option maxRecDepth 100000 in
+/-- … unjailed in block 91 it gets a grace period (not jailed by the sweeps of 100, 110, 120: the
+history is not `Due` there), is jailed again at 130, and — second jailing within the threshold —
+for five minutes: the hypotheses of `repeated_jailings_escalate` hold with `rest = [t2]` -/
+example : wf 1 escTo130 = true ∧ heightAfter 1 escTo130 = 131 ∧
+    jailTimes [0x2c] St.init escTo130 = [] ++ 120000000000 :: [260000000000] ∧
+    fresh (recAfter none []) 120000000000 ∧ escalating 0 120000000000 [260000000000] ∧
+    (run St.init escTo130).grace.get [0x2c] = some 91 ∧
+    isJailed (run St.init (escHead ++ quietBlocks 0 90 ++ blockWith 91 [.unjail (2000000000 * 91) [0x2c]]
+      ++ quietBlocks 91 29)) [0x2c] = false ∧
+    isJailed (run St.init escTo130) [0x2c] = true ∧
+    (run St.init escTo130).jailLog.get [0x2c] = some { duration := 5 * minute, jailedAt := 260000000000 } := by
+  refine ⟨by decide, by decide, by decide, Or.inl ⟨rfl, by decide⟩, ⟨by decide, trivial⟩, by decide, by decide,
+    by decide, by decide⟩
+
+
+set_option maxRecDepth 100000 in
+/-- the grace exception through `run St.init`: at the sweep of height 100 the validator unjailed in
+block 91 meets the hypotheses of `became_unjailed_within_grace_not_jailed` (newly unjailed at the
+end block of 91 ≥ 100 - 30), and indeed is not jailed although it has no keep-alive -/
+example :
+    let ops := escHead ++ quietBlocks 0 90 ++ blockWith 91 [.unjail (2000000000 * 91) [0x2c]]
+      ++ quietBlocks 91 8 ++ [.beginBlock 100]
+    wf 1 (ops ++ [.endBlock 100 200000000000]) = true ∧
+    (∃ e ∈ endBlocks (ops ++ [.endBlock 100 200000000000]), e.1 = 91 ∧ 100 - gracePeriod ≤ e.1 ∧
+      ([0x2c] : Addr) ∈ unjailedAddrs e.2.2 ∧
+      ∀ e' ∈ endBlocks (ops ++ [.endBlock 100 200000000000]), e'.1 + 1 = e.1 →
+        ([0x2c] : Addr) ∉ unjailedAddrs e'.2.2) ∧
+    isAlive (run St.init ops) [0x2c] 100 = false ∧
+    isJailed (run St.init (ops ++ [.endBlock 100 200000000000])) [0x2c] = false := by decide
+
+set_option maxRecDepth 100000 in
+/-- the hypotheses of `inactive_jailed_by_deadline` through `run St.init`: no keep-alive ever
+(`e = 0`), unjailed from the first end block on (`g = 1`): the deadline is the sweep of height 60 -/
+example :
+    let ops := escTo60 ++ [.endBlock 60 120000000000] ++ quietBlocks 60 3
+    nextSweep (max (max 0 (1 + gracePeriod + 1)) (sweepMinHeight + 1)) = 60 ∧
+    wf 1 ops = true ∧ 60 < heightAfter 1 ops ∧ acceptedKA [0x2c] ops = [] ∧
+    (∀ x ∈ endBlocks ops, 1 ≤ x.1 → x.1 < 60 → ([0x2c] : Addr) ∈ unjailedAddrs x.2.2) := by decide
 
 end Paloma.KeepAlive
